@@ -18,6 +18,11 @@
 import DecGen.Code
 import DecProofs.Properties.C02GenCorrection
 import DecProofs.Core.FinishUnique
+import DecProofs.Properties.C01GenArith
+import DecProofs.Properties.C13GenNoncomp
+import DecProofs.Properties.C02GenRound
+import Mathlib.Tactic.SplitIfs
+import Mathlib.Tactic.Tauto
 import Mathlib.Tactic.Linarith
 import Mathlib.Tactic.FieldSimp
 
@@ -1329,7 +1334,7 @@ def uflowRestLit (ptr_is_midpoint_lt_even_ : Bool) (ptr_is_midpoint_gt_even_ : B
 
 set_option maxRecDepth 100000 in
 set_option maxHeartbeats 4000000 in
-theorem uflowRestLit_eq {α : Type} (ptr_is_midpoint_lt_even : Bool) (ptr_is_midpoint_gt_even : Bool) (ptr_is_inexact_lt_midpoint : Bool) (ptr_is_inexact_gt_midpoint : Bool) (rnd_mode : RoundingMode) (pfpsf : UInt32) (res : U128) (z_sign : UInt64) (e3 : Int32) (scale : Int32) (ind : Int32) (x0 : Int32) (is_midpoint_lt_even : Bool) (is_midpoint_gt_even : Bool) (is_inexact_lt_midpoint : Bool) (is_inexact_gt_midpoint : Bool) (is_midpoint_lt_even0 : Bool) (is_midpoint_gt_even0 : Bool) (is_inexact_lt_midpoint0 : Bool) (is_inexact_gt_midpoint0 : Bool) (incr_exp : Bool) (lsb : Bool) (is_tiny : Bool) (R64 : UInt64) (tmp64 : UInt64) (P128 : U128) (R128 : U128) (P192 : U192) (R192 : U192) (R256 : U256) :
+theorem uflowRestLit_eq (ptr_is_midpoint_lt_even : Bool) (ptr_is_midpoint_gt_even : Bool) (ptr_is_inexact_lt_midpoint : Bool) (ptr_is_inexact_gt_midpoint : Bool) (rnd_mode : RoundingMode) (pfpsf : UInt32) (res : U128) (z_sign : UInt64) (e3 : Int32) (scale : Int32) (ind : Int32) (x0 : Int32) (is_midpoint_lt_even : Bool) (is_midpoint_gt_even : Bool) (is_inexact_lt_midpoint : Bool) (is_inexact_gt_midpoint : Bool) (is_midpoint_lt_even0 : Bool) (is_midpoint_gt_even0 : Bool) (is_inexact_lt_midpoint0 : Bool) (is_inexact_gt_midpoint0 : Bool) (incr_exp : Bool) (lsb : Bool) (is_tiny : Bool) (R64 : UInt64) (tmp64 : UInt64) (P128 : U128) (R128 : U128) (P192 : U192) (R192 : U192) (R256 : U256) :
     uflowRestLit ptr_is_midpoint_lt_even ptr_is_midpoint_gt_even ptr_is_inexact_lt_midpoint ptr_is_inexact_gt_midpoint rnd_mode pfpsf res z_sign e3 scale ind x0 is_midpoint_lt_even is_midpoint_gt_even is_inexact_lt_midpoint is_inexact_gt_midpoint is_midpoint_lt_even0 is_midpoint_gt_even0 is_inexact_lt_midpoint0 is_inexact_gt_midpoint0 incr_exp lsb is_tiny R64 tmp64 P128 R128 P192 R192 R256 =
       let t__45 : Int32 := e3
       if (let value := t__45; (value == c_EXP_MIN_UNBIASED)) then
@@ -1660,7 +1665,7 @@ def sumRestLit (ptr_is_midpoint_lt_even_ : Bool) (ptr_is_midpoint_gt_even_ : Boo
 
 set_option maxRecDepth 100000 in
 set_option maxHeartbeats 4000000 in
-theorem sumRestLit_eq {α : Type} (ptr_is_midpoint_lt_even : Bool) (ptr_is_midpoint_gt_even : Bool) (ptr_is_inexact_lt_midpoint : Bool) (ptr_is_inexact_gt_midpoint : Bool) (rnd_mode : RoundingMode) (pfpsf : UInt32) (res : U128) (z_sign : UInt64) (p_sign : UInt64) (e3 : Int32) (scale : Int32) (ind : Int32) (x0 : Int32) (is_midpoint_lt_even : Bool) (is_midpoint_gt_even : Bool) (is_inexact_lt_midpoint : Bool) (is_inexact_gt_midpoint : Bool) (is_midpoint_lt_even0 : Bool) (is_midpoint_gt_even0 : Bool) (is_inexact_lt_midpoint0 : Bool) (is_inexact_gt_midpoint0 : Bool) (incr_exp : Bool) (lsb : Bool) (is_tiny : Bool) (R64 : UInt64) (tmp64 : UInt64) (P128 : U128) (R128 : U128) (P192 : U192) (R192 : U192) (R256 : U256) :
+theorem sumRestLit_eq (ptr_is_midpoint_lt_even : Bool) (ptr_is_midpoint_gt_even : Bool) (ptr_is_inexact_lt_midpoint : Bool) (ptr_is_inexact_gt_midpoint : Bool) (rnd_mode : RoundingMode) (pfpsf : UInt32) (res : U128) (z_sign : UInt64) (p_sign : UInt64) (e3 : Int32) (scale : Int32) (ind : Int32) (x0 : Int32) (is_midpoint_lt_even : Bool) (is_midpoint_gt_even : Bool) (is_inexact_lt_midpoint : Bool) (is_inexact_gt_midpoint : Bool) (is_midpoint_lt_even0 : Bool) (is_midpoint_gt_even0 : Bool) (is_inexact_lt_midpoint0 : Bool) (is_inexact_gt_midpoint0 : Bool) (incr_exp : Bool) (lsb : Bool) (is_tiny : Bool) (R64 : UInt64) (tmp64 : UInt64) (P128 : U128) (R128 : U128) (P192 : U192) (R192 : U192) (R256 : U256) :
     sumRestLit ptr_is_midpoint_lt_even ptr_is_midpoint_gt_even ptr_is_inexact_lt_midpoint ptr_is_inexact_gt_midpoint rnd_mode pfpsf res z_sign p_sign e3 scale ind x0 is_midpoint_lt_even is_midpoint_gt_even is_inexact_lt_midpoint is_inexact_gt_midpoint is_midpoint_lt_even0 is_midpoint_gt_even0 is_inexact_lt_midpoint0 is_inexact_gt_midpoint0 incr_exp lsb is_tiny R64 tmp64 P128 R128 P192 R192 R256 =
       if (z_sign == p_sign) then
         sameAddK res lsb R128 (fun res lsb =>
@@ -2076,7 +2081,7 @@ def bodyLit (ptr_is_midpoint_lt_even_ : Bool) (ptr_is_midpoint_gt_even_ : Bool) 
 
 set_option maxRecDepth 100000 in
 set_option maxHeartbeats 4000000 in
-theorem bodyLit_eq {α : Type} (ptr_is_midpoint_lt_even : Bool) (ptr_is_midpoint_gt_even : Bool) (ptr_is_inexact_lt_midpoint : Bool) (ptr_is_inexact_gt_midpoint : Bool) (rnd_mode : RoundingMode) (pfpsf : UInt32) (res : U128) (z_sign : UInt64) (p_sign : UInt64) (C3 : U128) (C4 : U256) (q3 : Int32) (q4 : Int32) (e3 : Int32) (scale : Int32) (ind : Int32) (x0 : Int32) (is_midpoint_lt_even : Bool) (is_midpoint_gt_even : Bool) (is_inexact_lt_midpoint : Bool) (is_inexact_gt_midpoint : Bool) (is_midpoint_lt_even0 : Bool) (is_midpoint_gt_even0 : Bool) (is_inexact_lt_midpoint0 : Bool) (is_inexact_gt_midpoint0 : Bool) (incr_exp : Bool) (lsb : Bool) (is_tiny : Bool) (R64 : UInt64) (tmp64 : UInt64) (P128 : U128) (R128 : U128) (P192 : U192) (R192 : U192) (R256 : U256) :
+theorem bodyLit_eq (ptr_is_midpoint_lt_even : Bool) (ptr_is_midpoint_gt_even : Bool) (ptr_is_inexact_lt_midpoint : Bool) (ptr_is_inexact_gt_midpoint : Bool) (rnd_mode : RoundingMode) (pfpsf : UInt32) (res : U128) (z_sign : UInt64) (p_sign : UInt64) (C3 : U128) (C4 : U256) (q3 : Int32) (q4 : Int32) (e3 : Int32) (scale : Int32) (ind : Int32) (x0 : Int32) (is_midpoint_lt_even : Bool) (is_midpoint_gt_even : Bool) (is_inexact_lt_midpoint : Bool) (is_inexact_gt_midpoint : Bool) (is_midpoint_lt_even0 : Bool) (is_midpoint_gt_even0 : Bool) (is_inexact_lt_midpoint0 : Bool) (is_inexact_gt_midpoint0 : Bool) (incr_exp : Bool) (lsb : Bool) (is_tiny : Bool) (R64 : UInt64) (tmp64 : UInt64) (P128 : U128) (R128 : U128) (P192 : U192) (R192 : U192) (R256 : U256) :
     bodyLit ptr_is_midpoint_lt_even ptr_is_midpoint_gt_even ptr_is_inexact_lt_midpoint ptr_is_inexact_gt_midpoint rnd_mode pfpsf res z_sign p_sign C3 C4 q3 q4 e3 scale ind x0 is_midpoint_lt_even is_midpoint_gt_even is_inexact_lt_midpoint is_inexact_gt_midpoint is_midpoint_lt_even0 is_midpoint_gt_even0 is_inexact_lt_midpoint0 is_inexact_gt_midpoint0 incr_exp lsb is_tiny R64 tmp64 P128 R128 P192 R192 R256 =
       scaleC3K res C3 q3 scale (fun res =>
       let e3 := (e3 - scale)
@@ -2632,8 +2637,8 @@ def dblFix (c : Nat) (f0 f : Ind) : Nat × Ind :=
   else if ((f0.inexLtMid || f0.midGtEven) && f.midGtEven) = true then
     (c + 1, { f with midGtEven := false, inexGtMid := true })
   else if (!f.midLtEven && !f.midGtEven && !f.inexLtMid && !f.inexGtMid) = true then
-    (c, { f with inexGtMid := (f.inexGtMid || (f0.inexGtMid || f0.midLtEven)),
-                 inexLtMid := (f.inexLtMid || (f0.inexLtMid || f0.midGtEven)) })
+    (c, { f with inexGtMid := (if (f0.inexGtMid || f0.midLtEven) = true then true else f.inexGtMid),
+                 inexLtMid := (if (f0.inexLtMid || f0.midGtEven) = true then true else f.inexLtMid) })
   else if (f.midGtEven && (f0.inexGtMid || f0.midLtEven)) = true then
     (c, { midLtEven := false, midGtEven := false, inexLtMid := true, inexGtMid := false })
   else if (f.midLtEven && (f0.inexLtMid || f0.midGtEven)) = true then
@@ -4097,6 +4102,31 @@ theorem nine_le_pow (k : Nat) (h : 1 ≤ k) : 9 * 10 ^ (k - 1) ≤ 10 ^ k := by
   obtain ⟨j, rfl⟩ : ∃ j, k = j + 1 := ⟨k - 1, by omega⟩
   rw [Nat.add_sub_cancel, Nat.pow_succ]; omega
 
+/-- the rounded product is small against `A` when the product itself is -/
+theorem R_le_A {A T C4 R : Nat} {fl : Ind} (h1 : NE C4 T R fl) (hT : 0 < T) (hA0 : 0 < A) (hdom : 10 * C4 < A * T) : R ≤ A := by
+  by_contra hc
+  have : (A + 1) * T ≤ R * T := Nat.mul_le_mul_right T (by omega)
+  rw [Nat.add_mul, Nat.one_mul] at this
+  have := h1.near.2
+  have : T ≤ A * T := Nat.le_mul_of_pos_left T hA0
+  omega
+
+theorem lsbFixSame_pos {A T C4 R : Nat} {fl1 : Ind} (h1 : NE C4 T R fl1) (hT0 : 0 < T) (hA0 : 0 < A) (lsb : Bool)
+    (hl : lsb = true ↔ A % 2 = 1) : 1 ≤ (lsbFixSame lsb (A + R) fl1).1 := by
+  obtain ⟨-, hdis⟩ := lsbFixSame_NE (A := A) h1 hT0 lsb hl
+  rcases hdis with h | ⟨h, -⟩ | ⟨h, h2⟩ <;> omega
+
+theorem lsbFixDiff_pos {A T C4 R : Nat} {fl1 : Ind} (h1 : NE C4 T R fl1) (hT0 : 0 < T) (hA0 : 0 < A)
+    (hdom : 10 * C4 < A * T) (lsb : Bool) (hl : lsb = true ↔ A % 2 = 1) : 1 ≤ (lsbFixDiff lsb (A - R) fl1).1 := by
+  have hRA := R_le_A h1 hT0 hA0 hdom
+  have hC : C4 ≤ A * T := by omega
+  obtain ⟨hNE, -⟩ := lsbFixDiff_NE h1 hT0 hRA hC lsb hl
+  have hTA : T ≤ A * T := Nat.le_mul_of_pos_left T hA0
+  have hn := hNE.near
+  rcases Nat.eq_zero_or_pos (lsbFixDiff lsb (A - R) fl1).1 with h0 | h0
+  · rw [h0, Nat.zero_mul] at hn; omega
+  · exact h0
+
 /-- **same signs, the sum has at most 34 digits** -/
 theorem exit_same34 {A T x : Nat} {E m : Int} (ctx : Ctx A T x E m) (hA34 : A < P34) (C4 R : Nat) (fl1 : Ind)
     (h1 : NE C4 T R fl1) (lsb : Bool) (hl : lsb = true ↔ A % 2 = 1) (hc1 : A + R ≤ P34 - 1)
@@ -4244,15 +4274,6 @@ theorem exit_same35 {A T x : Nat} {E m : Int} (ctx : Ctx A T x E m) (hA34 : A < 
       have := hk33 (by omega)
       exact nine_le_P33 _ (by omega)
 
-
-/-- the rounded product is small against `A` when the product itself is -/
-theorem R_le_A {A T C4 R : Nat} {fl : Ind} (h1 : NE C4 T R fl) (hT : 0 < T) (hA0 : 0 < A) (hdom : 10 * C4 < A * T) : R ≤ A := by
-  by_contra hc
-  have : (A + 1) * T ≤ R * T := Nat.mul_le_mul_right T (by omega)
-  rw [Nat.add_mul, Nat.one_mul] at this
-  have := h1.near.2
-  have : T ≤ A * T := Nat.le_mul_of_pos_left T hA0
-  omega
 
 /-- **opposite signs, no further turn** -/
 theorem exit_diff {A T x : Nat} {E m : Int} (ctx : Ctx A T x E m) (C4 R : Nat) (fl1 : Ind)
@@ -4404,6 +4425,1841 @@ theorem repeat_step {A T x : Nat} {E m : Int} (ctx : Ctx A T x E m) (C4 R : Nat)
     have : 0 < P33 * 10 ^ j := Nat.mul_pos (by decide) hT'0
     have : 10 ^ j ≤ P33 * 10 ^ j := Nat.le_mul_of_pos_left _ (by decide)
     omega
+
+
+open Dec.RH (Ind)
+open Dec.Rs Dec.Gen.Code
+open Dec.C03GenCompare (val128 val256)
+
+/-! ## 10. The pieces of the code, evaluated -/
+
+/-- the rounding helpers overwrite `incr_exp`: its value on entry does not matter -/
+theorem r64_incr (q x : Int32) (C : UInt64) (b l g il ig : Bool) :
+    bid_round64_2_18 q x C b l g il ig = bid_round64_2_18 q x C false l g il ig := rfl
+theorem r128_incr (q x : Int32) (C : U128) (b l g il ig : Bool) :
+    bid_round128_19_38 q x C b l g il ig = bid_round128_19_38 q x C false l g il ig := rfl
+theorem r192_incr (q x : Int32) (C : U192) (b l g il ig : Bool) :
+    bid_round192_39_57 q x C b l g il ig = bid_round192_39_57 q x C false l g il ig := rfl
+theorem r256_incr (q x : Int32) (C : U256) (b l g il ig : Bool) :
+    bid_round256_58_76 q x C b l g il ig = bid_round256_58_76 q x C false l g il ig := rfl
+
+
+/-! ### small facts about `Int32` and table indices -/
+
+theorem bind_ok {α β : Type} (v : α) (k : α → Except String β) : ((Except.ok v : Except String α) >>= k) = k v := rfl
+
+theorem idx_nat (a : Int32) (n : Nat) (h : a.toInt = n) : (UInt64.ofInt (toI a)).toNat = n := by
+  rw [Dec.C13GenNoncomp.toI_i32, h, Dec.C13GenNoncomp.u64_ofInt_nat, UInt64.toNat_ofNat', Nat.mod_eq_of_lt]
+  have := a.toInt_lt
+  have : (n : Int) < 2^31 := by rw [← h]; exact this
+  omega
+
+theorem i32_le (a n : Int32) : decide (a ≤ n) = decide (a.toInt ≤ n.toInt) := by
+  rw [decide_eq_decide, Int32.le_iff_toInt_le]
+theorem i32_lt (a n : Int32) : decide (a < n) = decide (a.toInt < n.toInt) := by
+  rw [decide_eq_decide, Int32.lt_iff_toInt_lt]
+theorem i32_beq (a n : Int32) : (a == n) = decide (a.toInt = n.toInt) := by
+  rw [Bool.eq_iff_iff, beq_iff_eq, decide_eq_true_eq, Int32.toInt_inj]
+
+theorem i32_sub' (a b : Int32) (x y : Int) (ha : a.toInt = x) (hb : b.toInt = y) (h1 : -2^31 ≤ x - y) (h2 : x - y < 2^31) :
+    (a - b).toInt = x - y := by
+  rw [Int32.toInt_sub, ha, hb, Dec.C13GenNoncomp.bmod32 _ h1 h2]
+theorem i32_add' (a b : Int32) (x y : Int) (ha : a.toInt = x) (hb : b.toInt = y) (h1 : -2^31 ≤ x + y) (h2 : x + y < 2^31) :
+    (a + b).toInt = x + y := by
+  rw [Int32.toInt_add, ha, hb, Dec.C13GenNoncomp.bmod32 _ h1 h2]
+
+theorem val128_toNat' (r : U128) : r.toNat' = val128 r := by
+  unfold Dec.Rs.U128.toNat' val128; omega
+
+/-- **`res = C3·10^scale`**: the three multiplication paths and the copy for `scale = 0` -/
+theorem scaleC3K_spec {α : Type} (res C3 : U128) (q3 scale : Int32) (k : U128 → Except String α) (c Q S : Nat)
+    (hC : val128 C3 = c) (hq : q3.toInt = Q) (hsc : scale.toInt = S) (hQ : Q = ndigits c) (hc0 : 0 < c)
+    (hfit : Q + S ≤ 35) (hS : S ≤ 34) :
+    ∃ r, scaleC3K res C3 q3 scale k = k r ∧ val128 r = c * 10 ^ S := by
+  have hl := C3.w0.toNat_lt
+  have hcQ : c < 10 ^ Q := by rw [hQ]; exact lt_pow_ndigits c
+  have hlt : c * 10 ^ S < 10 ^ 35 := by
+    calc c * 10 ^ S < 10 ^ Q * 10 ^ S := Nat.mul_lt_mul_of_pos_right hcQ (Nat.pow_pos (by decide))
+      _ = 10 ^ (Q + S) := (Nat.pow_add _ _ _).symm
+      _ ≤ 10 ^ 35 := Nat.pow_le_pow_right (by decide) hfit
+  have h35 : (10 : Nat) ^ 35 < 2 ^ 128 := by decide
+  unfold scaleC3K
+  simp only [bind, Except.bind, pure, Except.pure]
+  by_cases h0 : S = 0
+  · rw [if_pos (by rw [i32_beq, hsc, decide_eq_true_eq, h0]; rfl)]
+    exact ⟨_, rfl, by rw [h0, Nat.pow_zero, Nat.mul_one, ← hC]⟩
+  rw [if_neg (by rw [i32_beq, hsc, decide_eq_true_eq]; show ¬ (S : Int) = 0; omega)]
+  have hidx := idx_nat scale S hsc
+  by_cases hq19 : Q ≤ 19
+  · rw [if_pos (by rw [i32_le, hq, decide_eq_true_eq]; show (Q : Int) ≤ 19; omega)]
+    have hCs : c < 10 ^ 19 := lt_of_lt_of_le hcQ (Nat.pow_le_pow_right (by decide) hq19)
+    have hw0 : C3.w0.toNat = c := by
+      have : (10 : Nat) ^ 19 < 2 ^ 64 := by decide
+      unfold val128 at hC; omega
+    by_cases hs19 : S ≤ 19
+    · rw [if_pos (by rw [i32_le, hsc, decide_eq_true_eq]; show (S : Int) ≤ 19; omega)]
+      obtain ⟨v, hv, hv10⟩ := Dec.C03GenCompare.tbl64_ten (UInt64.ofInt (toI scale)) (by omega)
+      obtain ⟨r, hr, hrv⟩ := Dec.C01GenArith.gen_mul_64x64_to_128MACH C3.w0 v
+      rw [hv]
+      simp only [hr]
+      exact ⟨r, rfl, by rw [← val128_toNat', hrv, hw0, hv10, hidx]⟩
+    · rw [if_neg (by rw [i32_le, hsc, decide_eq_true_eq]; show ¬ (S : Int) ≤ 19; omega)]
+      have hs20 : (scale - (0x14 : Int32)).toInt = ((S - 20 : Nat) : Int) := by
+        rw [i32_sub' scale 0x14 S 20 hsc rfl (by omega) (by omega)]; omega
+      have hidx2 := idx_nat _ _ hs20
+      obtain ⟨v, hv, hv10⟩ := Dec.C03GenCompare.tbl128_ten (UInt64.ofInt (toI (scale - (0x14 : Int32)))) (by omega)
+      rw [hidx2, show S - 20 + 20 = S by omega] at hv10
+      obtain ⟨r, hr, hrv⟩ := Dec.C01GenArith.gen_mul_128x64_to_128_exact C3.w0 v (by
+        rw [val128_toNat', hv10, hw0]; omega)
+      rw [hv]
+      simp only [hr]
+      exact ⟨r, rfl, by rw [← val128_toNat', hrv, val128_toNat', hv10, hw0]⟩
+  · rw [if_neg (by rw [i32_le, hq, decide_eq_true_eq]; show ¬ (Q : Int) ≤ 19; omega)]
+    obtain ⟨v, hv, hv10⟩ := Dec.C03GenCompare.tbl64_ten (UInt64.ofInt (toI scale)) (by omega)
+    obtain ⟨r, hr, hrv⟩ := Dec.C01GenArith.gen_mul_128x64_to_128_exact v C3 (by
+      rw [val128_toNat', hv10, hidx, hC, Nat.mul_comm]; omega)
+    rw [hv]
+    simp only [hr]
+    exact ⟨r, rfl, by rw [← val128_toNat', hrv, val128_toNat', hv10, hidx, hC, Nat.mul_comm]⟩
+
+
+open Dec.RH (Ind)
+open Dec.Rs Dec.Gen.Code
+open Dec.C03GenCompare (val128 val256)
+open Dec.C02RoundHelpers (Spec rne)
+
+/-! ### the rounding helpers as the block uses them -/
+
+theorem i32_ofNat_eq (a : Int32) (n : Nat) (h : a.toInt = n) : a = Int32.ofNat n := by
+  have hlt : (n : Int) < 2^31 := by rw [← h]; exact a.toInt_lt
+  rw [← Int32.toInt_inj, h, Int32.toInt_ofNat_of_lt (by omega)]
+
+/-- `10^n` from the 64-bit table -/
+theorem ten64 (d : Int32) (n : Nat) (hd : d.toInt = n) (hn : n ≤ 19) :
+    ∃ v, tbl64 Dec.Gen.BID_TEN2K64 (UInt64.ofInt (toI d)) = .ok v ∧ v.toNat = 10 ^ n := by
+  have hidx := idx_nat d n hd
+  obtain ⟨v, hv, hv10⟩ := Dec.C03GenCompare.tbl64_ten (UInt64.ofInt (toI d)) (by omega)
+  exact ⟨v, hv, by rw [hv10, hidx]⟩
+
+/-- `10^n` from the 128-bit table -/
+theorem ten128 (d : Int32) (n : Nat) (hd : d.toInt = n) (h20 : 20 ≤ n) (hn : n ≤ 38) :
+    ∃ v, tbl128 Dec.Gen.BID_TEN2K128 (UInt64.ofInt (toI (d - (0x14 : Int32)))) = .ok v ∧ val128 v = 10 ^ n := by
+  have hs20 : (d - (0x14 : Int32)).toInt = ((n - 20 : Nat) : Int) := by
+    rw [i32_sub' d 0x14 n 20 hd rfl (by omega) (by omega)]; omega
+  have hidx := idx_nat _ _ hs20
+  obtain ⟨v, hv, hv10⟩ := Dec.C03GenCompare.tbl128_ten (UInt64.ofInt (toI (d - (0x14 : Int32)))) (by omega)
+  exact ⟨v, hv, by rw [hv10, hidx]; congr 1; omega⟩
+
+/-- the value handed back by a helper, with the exponent increment undone -/
+theorem spec_undo {q x C cstar : Nat} {incr : Bool} {fl : Ind} (sp : Spec q x C cstar incr fl) (hqx : x + 1 ≤ q) :
+    (incr = true → cstar = 10 ^ (q - x - 1) ∧ rne C x = 10 ^ (q - x)) ∧ (incr = false → cstar = rne C x) := by
+  have h1 := sp.cstar_eq; have h2 := sp.incr_iff
+  constructor
+  · intro hi
+    have := h2.1 hi
+    rw [if_pos this] at h1
+    exact ⟨h1, this⟩
+  · intro hi
+    have : ¬ rne C x = 10 ^ (q - x) := fun h => by rw [h2.2 h] at hi; exact Bool.noConfusion hi
+    rw [if_neg this] at h1; exact h1
+
+theorem rne_le_pow (C x q : Nat) (hx : 1 ≤ x) (hC : C < 10 ^ q) (hqx : x ≤ q) : rne C x ≤ 10 ^ (q - x) := by
+  have h := (Dec.C02RoundHelpers.rne_rounded C x)
+  unfold RoundedInt at h
+  obtain ⟨⟨h1, h2⟩, -⟩ := h
+  have hp : 0 < 10 ^ x := Nat.pow_pos (by decide)
+  have e : 10 ^ q = 10 ^ (q - x) * 10 ^ x := by rw [← Nat.pow_add]; congr 1; omega
+  by_contra hc
+  have : (10 ^ (q - x) + 1) * 10 ^ x ≤ rne C x * 10 ^ x := Nat.mul_le_mul_right _ (by omega)
+  rw [Nat.add_mul, Nat.one_mul, ← e] at this
+  rw [Nat.mul_assoc] at h2
+  omega
+
+
+open Dec.RH (Ind)
+open Dec.Rs Dec.Gen.Code
+open Dec.C03GenCompare (val128 val256)
+open Dec.C02RoundHelpers (Spec rne)
+open Dec.C02GenRound (v128 v192 v256)
+
+theorem v128_val (a : U128) : v128 a = val128 a := by unfold v128 val128; omega
+
+theorem val256_small (C : U256) (h : val256 C < 2 ^ 128) :
+    C.w2.toNat = 0 ∧ C.w3.toNat = 0 ∧ val128 (⟨C.w0, C.w1⟩ : U128) = val256 C := by
+  unfold val256 at h ⊢
+  have h3 : C.w3.toNat = 0 := by
+    by_contra hc
+    have : 2 ^ 192 ≤ C.w3.toNat * 2 ^ 192 := Nat.le_mul_of_pos_left _ (by omega)
+    have : (2 : Nat) ^ 128 ≤ 2 ^ 192 := by decide
+    omega
+  have h2 : C.w2.toNat = 0 := by
+    by_contra hc
+    have : 2 ^ 128 ≤ C.w2.toNat * 2 ^ 128 := Nat.le_mul_of_pos_left _ (by omega)
+    omega
+  refine ⟨h2, h3, ?_⟩
+  unfold val128
+  rw [h2, h3]; simp
+
+theorem val256_small192 (C : U256) (h : val256 C < 2 ^ 192) :
+    C.w3.toNat = 0 ∧ v192 (⟨C.w0, C.w1, C.w2⟩ : U192) = val256 C := by
+  unfold val256 at h ⊢
+  have h3 : C.w3.toNat = 0 := by
+    by_contra hc
+    have : 2 ^ 192 ≤ C.w3.toNat * 2 ^ 192 := Nat.le_mul_of_pos_left _ (by omega)
+    omega
+  refine ⟨h3, ?_⟩
+  unfold v192
+  rw [h3]; simp only []; omega
+
+theorem v192_small (C : U192) (h : v192 C < 2 ^ 128) : C.w1.toNat * 2 ^ 64 + C.w0.toNat = v192 C := by
+  unfold v192 at h ⊢
+  have h2 : C.w2.toNat = 0 := by
+    by_contra hc
+    have : 2 ^ 128 ≤ 2 ^ 128 * C.w2.toNat := Nat.le_mul_of_pos_right _ (by omega)
+    omega
+  rw [h2]; omega
+
+theorem v256_small (C : U256) (h : v256 C < 2 ^ 128) : C.w1.toNat * 2 ^ 64 + C.w0.toNat = v256 C := by
+  unfold v256 at h ⊢
+  have h3 : C.w3.toNat = 0 := by
+    by_contra hc
+    have : 2 ^ 192 ≤ 2 ^ 192 * C.w3.toNat := Nat.le_mul_of_pos_right _ (by omega)
+    have : (2 : Nat) ^ 128 ≤ 2 ^ 192 := by decide
+    omega
+  have h2 : C.w2.toNat = 0 := by
+    by_contra hc
+    have : 2 ^ 128 ≤ 2 ^ 128 * C.w2.toNat := Nat.le_mul_of_pos_right _ (by omega)
+    omega
+  rw [h2, h3]; omega
+
+theorem v256_val (C : U256) : v256 C = val256 C := by unfold v256 val256; omega
+
+theorem pow35 : (10 : Nat) ^ 35 < 2 ^ 128 := by decide
+
+set_option maxHeartbeats 2000000 in
+/-- **the product rounded to `q4 − x0` digits**: `R128` is `C4/10^x0` rounded to nearest-even (the replacement of a carried
+`10^(q4−x0)` undone), with the indicators; for `x0 = 0` it is `C4` itself -/
+theorem roundC4K_spec {α : Type} (C4 : U256) (q4 x0 : Int32) (incr : Bool) (R64 : UInt64) (P128 R128 : U128)
+    (P192 R192 : U192) (R256 : U256)
+    (k : Bool → Bool → Bool → Bool → Bool → UInt64 → U128 → U128 → U192 → U192 → U256 → Except String α)
+    (c4 Q X : Nat) (hC : val256 C4 = c4) (hq' : 1 ≤ X → q4.toInt = Q) (hx : x0.toInt = X) (hc4' : 1 ≤ X → c4 < 10 ^ Q)
+    (hXQ : X = 0 ∨ X + 1 ≤ Q) (hQ : Q ≤ 76) (h128 : X = 0 → c4 < 2 ^ 128) (hfit : Q - X ≤ 35)
+    (h58 : 58 ≤ Q → 1 ≤ X → 20 ≤ X) :
+    ∃ (ML MG L G incr' : Bool) (R64' : UInt64) (P128' R128' : U128) (P192' R192' : U192) (R256' : U256),
+      roundC4K C4 q4 x0 false false false false incr R64 P128 R128 P192 R192 R256 k =
+        k ML MG L G incr' R64' P128' R128' P192' R192' R256' ∧
+      NE c4 (10 ^ X) (val128 R128') ⟨ML, MG, L, G⟩ := by
+  have b0 := C4.w0.toNat_lt; have b1 := C4.w1.toNat_lt; have b2 := C4.w2.toNat_lt; have b3 := C4.w3.toNat_lt
+  unfold roundC4K
+  simp only [bind, Except.bind, pure, Except.pure]
+  by_cases hX0 : X = 0
+  · have hz : (x0 == (0 : Int32)) = true := by
+      rw [i32_beq, hx, hX0]; exact decide_eq_true rfl
+    rw [if_pos hz]
+    refine ⟨_, _, _, _, _, _, _, _, _, _, _, rfl, ?_⟩
+    have : val128 (⟨C4.w0, C4.w1⟩ : U128) = c4 := by
+      rw [← hC]; exact (val256_small C4 (by rw [hC]; exact h128 hX0)).2.2
+    rw [hX0, Nat.pow_zero, this]
+    exact NE_exact c4
+  rw [if_neg (by rw [i32_beq, hx, decide_eq_true_eq]; show ¬ (X : Int) = 0; omega)]
+  have hX1 : 1 ≤ X := by omega
+  have hq := hq' hX1
+  have hc4 := hc4' hX1
+  have hXQ' : X + 1 ≤ Q := by omega
+  have hqe := i32_ofNat_eq q4 Q hq
+  have hxe := i32_ofNat_eq x0 X hx
+  have hd : (q4 - x0).toInt = ((Q - X : Nat) : Int) := by
+    rw [i32_sub' q4 x0 Q X hq hx (by omega) (by omega)]; omega
+  have hle35 := rne_le_pow c4 X Q hX1 hc4 (by omega)
+  have hp35 : 10 ^ (Q - X) ≤ 10 ^ 35 := Nat.pow_le_pow_right (by decide) hfit
+  have h35 := pow35
+  by_cases h18 : Q ≤ 18
+  · -- one word
+    rw [if_pos (by rw [i32_le, hq, decide_eq_true_eq]; show (Q : Int) ≤ 18; omega)]
+    have hw0 : C4.w0.toNat = c4 := by
+      have : c4 < 10 ^ 18 := lt_of_lt_of_le hc4 (Nat.pow_le_pow_right (by decide) h18)
+      have : (10 : Nat) ^ 18 < 2 ^ 64 := by decide
+      unfold val256 at hC; omega
+    obtain ⟨cs, ic, lt, gt, ilt, igt, hcall, sp⟩ := Dec.C02GenRound.bid_round64_2_18_spec Q X C4.w0 (by omega) h18 hX1 hXQ'
+      (by rw [hw0]; exact hc4)
+    rw [r64_incr, hqe, hxe, hcall]
+    simp only []
+    rw [hw0] at sp
+    obtain ⟨u1, u2⟩ := spec_undo sp hXQ'
+    have hne := spec_NE Q X c4 _ ic ⟨lt, gt, ilt, igt⟩ sp hX1
+    cases ic
+    · simp only [Bool.false_eq_true, if_false]
+      refine ⟨_, _, _, _, _, _, _, _, _, _, _, rfl, ?_⟩
+      have : val128 (⟨cs, 0⟩ : U128) = rne c4 X := by
+        unfold val128; simp only [UInt64.toNat_zero]; rw [u2 rfl]; omega
+      rw [this]; exact hne
+    · simp only [if_true]
+      obtain ⟨v, hv, hv10⟩ := ten64 (Int32.ofNat Q - Int32.ofNat X) (Q - X) (by rw [← hqe, ← hxe]; exact hd) (by omega)
+      rw [hv]
+      simp only []
+      refine ⟨_, _, _, _, _, _, _, _, _, _, _, rfl, ?_⟩
+      have : val128 (⟨v, 0⟩ : U128) = rne c4 X := by
+        unfold val128; simp only [UInt64.toNat_zero]; rw [hv10, (u1 rfl).2]; omega
+      rw [this]; exact hne
+  rw [if_neg (by rw [i32_le, hq, decide_eq_true_eq]; show ¬ (Q : Int) ≤ 18; omega)]
+  have hdle : decide (q4 - x0 ≤ (0x13 : Int32)) = decide (Q - X ≤ 19) := by
+    rw [i32_le, hd, decide_eq_decide]; show ((Q - X : Nat) : Int) ≤ 19 ↔ _; omega
+  -- the replacement of a carried 10^(Q−X), on two words
+  have fix2 : ∀ (w0 w1 : UInt64), w1.toNat * 2 ^ 64 + w0.toNat = 10 ^ (Q - X - 1) → rne c4 X = 10 ^ (Q - X) →
+      (Q - X ≤ 19 → ∃ v, tbl64 Dec.Gen.BID_TEN2K64 (UInt64.ofInt (toI (q4 - x0))) = .ok v ∧ val128 (⟨v, w1⟩ : U128) = rne c4 X) ∧
+      (¬ Q - X ≤ 19 → ∃ v, tbl128 Dec.Gen.BID_TEN2K128 (UInt64.ofInt (toI (q4 - x0 - (0x14 : Int32)))) = .ok v ∧
+        val128 (⟨v.w0, v.w1⟩ : U128) = rne c4 X) := by
+    intro w0 w1 hw hr
+    constructor
+    · intro h19
+      obtain ⟨v, hv, hv10⟩ := ten64 (q4 - x0) (Q - X) hd h19
+      refine ⟨v, hv, ?_⟩
+      have : 10 ^ (Q - X - 1) ≤ 10 ^ 18 := Nat.pow_le_pow_right (by decide) (by omega)
+      have : (10 : Nat) ^ 18 < 2 ^ 64 := by decide
+      have hw1 : w1.toNat = 0 := by have := w0.toNat_lt; omega
+      unfold val128; simp only []; rw [hw1, hv10, hr, Nat.zero_mul, Nat.zero_add]
+    · intro h19
+      obtain ⟨v, hv, hv10⟩ := ten128 (q4 - x0) (Q - X) hd (by omega) (by omega)
+      exact ⟨v, hv, by rw [hr, ← hv10]⟩
+  by_cases h38 : Q ≤ 38
+  · -- two words
+    rw [if_pos (by rw [i32_le, hq, decide_eq_true_eq]; show (Q : Int) ≤ 38; omega)]
+    have hv2 : v128 (⟨C4.w0, C4.w1⟩ : U128) = c4 := by
+      have : c4 < 10 ^ 38 := lt_of_lt_of_le hc4 (Nat.pow_le_pow_right (by decide) h38)
+      have : (10 : Nat) ^ 38 < 2 ^ 128 := by decide
+      rw [v128_val, ← hC]; exact (val256_small C4 (by rw [hC]; omega)).2.2
+    obtain ⟨cs, ic, lt, gt, ilt, igt, hcall, sp⟩ := Dec.C02GenRound.bid_round128_19_38_spec Q X ⟨C4.w0, C4.w1⟩ (by omega) h38 hX1 hXQ'
+      (by rw [hv2]; exact hc4)
+    rw [r128_incr, hqe, hxe, hcall]
+    simp only []
+    rw [hv2, v128_val] at sp
+    obtain ⟨u1, u2⟩ := spec_undo sp hXQ'
+    have hne := spec_NE Q X c4 _ ic ⟨lt, gt, ilt, igt⟩ sp hX1
+    cases ic
+    · simp only [Bool.false_eq_true, if_false]
+      refine ⟨_, _, _, _, _, _, _, _, _, _, _, rfl, ?_⟩
+      rw [u2 rfl]; exact hne
+    · simp only [if_true]
+      rw [← hqe, ← hxe, hdle]
+      obtain ⟨f1, f2⟩ := fix2 cs.w0 cs.w1 (u1 rfl).1 (u1 rfl).2
+      by_cases h19 : Q - X ≤ 19
+      · obtain ⟨v, hv, hvv⟩ := f1 h19
+        rw [if_pos (by simpa using h19), hv]
+        simp only []
+        exact ⟨_, _, _, _, _, _, _, _, _, _, _, rfl, by rw [hvv]; exact hne⟩
+      · obtain ⟨v, hv, hvv⟩ := f2 h19
+        rw [if_neg (by simpa using h19), hv]
+        simp only []
+        exact ⟨_, _, _, _, _, _, _, _, _, _, _, rfl, by rw [hvv]; exact hne⟩
+  rw [if_neg (by rw [i32_le, hq, decide_eq_true_eq]; show ¬ (Q : Int) ≤ 38; omega)]
+  have hpw1 : 10 ^ (Q - X - 1) < 2 ^ 128 := by
+    have : 10 ^ (Q - X - 1) ≤ 10 ^ 35 := Nat.pow_le_pow_right (by decide) (by omega)
+    omega
+  by_cases h57 : Q ≤ 57
+  · -- three words
+    rw [if_pos (by rw [i32_le, hq, decide_eq_true_eq]; show (Q : Int) ≤ 57; omega)]
+    have hv3 : v192 (⟨C4.w0, C4.w1, C4.w2⟩ : U192) = c4 := by
+      have : c4 < 10 ^ 57 := lt_of_lt_of_le hc4 (Nat.pow_le_pow_right (by decide) h57)
+      have : (10 : Nat) ^ 57 < 2 ^ 192 := by decide
+      rw [← hC]; exact (val256_small192 C4 (by rw [hC]; omega)).2
+    obtain ⟨cs, ic, lt, gt, ilt, igt, hcall, sp⟩ := Dec.C02GenRound.bid_round192_39_57_spec Q X ⟨C4.w0, C4.w1, C4.w2⟩ (by omega) h57 hX1 hXQ'
+      (by rw [hv3]; exact hc4)
+    rw [r192_incr, hqe, hxe, hcall]
+    simp only []
+    rw [hv3] at sp
+    obtain ⟨u1, u2⟩ := spec_undo sp hXQ'
+    have hne := spec_NE Q X c4 _ ic ⟨lt, gt, ilt, igt⟩ sp hX1
+    cases ic
+    · simp only [Bool.false_eq_true, if_false]
+      refine ⟨_, _, _, _, _, _, _, _, _, _, _, rfl, ?_⟩
+      have : val128 (⟨cs.w0, cs.w1⟩ : U128) = rne c4 X := by
+        unfold val128; simp only []
+        rw [v192_small cs (by rw [u2 rfl]; omega), u2 rfl]
+      rw [this]; exact hne
+    · simp only [if_true]
+      rw [← hqe, ← hxe, hdle]
+      obtain ⟨f1, f2⟩ := fix2 cs.w0 cs.w1 (by rw [v192_small cs (by rw [(u1 rfl).1]; exact hpw1)]; exact (u1 rfl).1) (u1 rfl).2
+      by_cases h19 : Q - X ≤ 19
+      · obtain ⟨v, hv, hvv⟩ := f1 h19
+        rw [if_pos (by simpa using h19), hv]
+        simp only []
+        exact ⟨_, _, _, _, _, _, _, _, _, _, _, rfl, by rw [hvv]; exact hne⟩
+      · obtain ⟨v, hv, hvv⟩ := f2 h19
+        rw [if_neg (by simpa using h19), hv]
+        simp only []
+        exact ⟨_, _, _, _, _, _, _, _, _, _, _, rfl, by rw [hvv]; exact hne⟩
+  · -- four words
+    rw [if_neg (by rw [i32_le, hq, decide_eq_true_eq]; show ¬ (Q : Int) ≤ 57; omega)]
+    obtain ⟨cs, ic, lt, gt, ilt, igt, hcall, sp⟩ := Dec.C02GenRound.bid_round256_58_76_spec Q X C4 (by omega) hQ (h58 (by omega) hX1) hXQ'
+      (by rw [v256_val, hC]; exact hc4)
+    rw [r256_incr, hqe, hxe, hcall]
+    simp only []
+    rw [v256_val, hC] at sp
+    obtain ⟨u1, u2⟩ := spec_undo sp hXQ'
+    have hne := spec_NE Q X c4 _ ic ⟨lt, gt, ilt, igt⟩ sp hX1
+    cases ic
+    · simp only [Bool.false_eq_true, if_false]
+      refine ⟨_, _, _, _, _, _, _, _, _, _, _, rfl, ?_⟩
+      have : val128 (⟨cs.w0, cs.w1⟩ : U128) = rne c4 X := by
+        unfold val128; simp only []
+        rw [v256_small cs (by rw [u2 rfl]; omega), u2 rfl]
+      rw [this]; exact hne
+    · simp only [if_true]
+      rw [← hqe, ← hxe, hdle]
+      obtain ⟨f1, f2⟩ := fix2 cs.w0 cs.w1 (by rw [v256_small cs (by rw [(u1 rfl).1]; exact hpw1)]; exact (u1 rfl).1) (u1 rfl).2
+      by_cases h19 : Q - X ≤ 19
+      · obtain ⟨v, hv, hvv⟩ := f1 h19
+        rw [if_pos (by simpa using h19), hv]
+        simp only []
+        exact ⟨_, _, _, _, _, _, _, _, _, _, _, rfl, by rw [hvv]; exact hne⟩
+      · obtain ⟨v, hv, hvv⟩ := f2 h19
+        rw [if_neg (by simpa using h19), hv]
+        simp only []
+        exact ⟨_, _, _, _, _, _, _, _, _, _, _, rfl, by rw [hvv]; exact hne⟩
+
+
+open Dec.RH (Ind)
+open Dec.Rs Dec.Gen.Code
+open Dec.C03GenCompare (val128 val256)
+
+/-! ### two-word arithmetic as the block writes it -/
+
+theorem odd_word (w : UInt64) : ((w &&& (1 : UInt64)) == (1 : UInt64)) = decide (w.toNat % 2 = 1) := by
+  rw [Bool.eq_iff_iff, beq_iff_eq, decide_eq_true_eq, ← UInt64.toNat_inj, UInt64.toNat_and]
+  show w.toNat &&& 1 = 1 ↔ _
+  rw [Nat.and_one_is_mod]
+
+theorem val128_odd (r : U128) : val128 r % 2 = r.w0.toNat % 2 := by unfold val128; omega
+
+/-- `res += R` with the carry -/
+theorem wadd (a b : U128) (h : val128 a + val128 b < 2 ^ 128) :
+    val128 (if decide (a.w0 + b.w0 < b.w0) = true then (⟨a.w0 + b.w0, a.w1 + b.w1 + 1⟩ : U128) else ⟨a.w0 + b.w0, a.w1 + b.w1⟩) =
+      val128 a + val128 b := by
+  have := a.w0.toNat_lt; have := a.w1.toNat_lt; have := b.w0.toNat_lt; have := b.w1.toNat_lt
+  unfold val128 at h ⊢
+  by_cases c : a.w0 + b.w0 < b.w0
+  · rw [if_pos (by simpa using c)]
+    rw [UInt64.lt_iff_toNat_lt, UInt64.toNat_add] at c
+    simp only [UInt64.toNat_add, UInt64.toNat_one]
+    omega
+  · rw [if_neg (by simpa using c)]
+    rw [UInt64.lt_iff_toNat_lt, UInt64.toNat_add] at c
+    simp only [UInt64.toNat_add]
+    omega
+
+/-- `res −= R` with the borrow -/
+theorem wsub (a b : U128) (h : val128 b ≤ val128 a) :
+    val128 (if decide (a.w0 - b.w0 > a.w0) = true then (⟨a.w0 - b.w0, a.w1 - b.w1 - 1⟩ : U128) else ⟨a.w0 - b.w0, a.w1 - b.w1⟩) =
+      val128 a - val128 b := by
+  have := a.w0.toNat_lt; have := a.w1.toNat_lt; have := b.w0.toNat_lt; have := b.w1.toNat_lt
+  unfold val128 at h ⊢
+  by_cases c : a.w0 - b.w0 > a.w0
+  · rw [if_pos (by simpa using c)]
+    rw [gt_iff_lt, UInt64.lt_iff_toNat_lt, UInt64.toNat_sub] at c
+    simp only [UInt64.toNat_sub, UInt64.toNat_one]
+    omega
+  · rw [if_neg (by simpa using c)]
+    rw [gt_iff_lt, UInt64.lt_iff_toNat_lt, UInt64.toNat_sub] at c
+    simp only [UInt64.toNat_sub]
+    omega
+
+/-- `res += 1` -/
+theorem winc (a : U128) (h : val128 a + 1 < 2 ^ 128) :
+    val128 (if (a.w0 + 1 == (0 : UInt64)) = true then (⟨a.w0 + 1, a.w1 + 1⟩ : U128) else ⟨a.w0 + 1, a.w1⟩) = val128 a + 1 := by
+  have := a.w0.toNat_lt; have := a.w1.toNat_lt
+  unfold val128 at h ⊢
+  by_cases c : (a.w0 + 1 == (0 : UInt64)) = true
+  · rw [if_pos c]
+    rw [beq_iff_eq, ← UInt64.toNat_inj, UInt64.toNat_add] at c
+    simp only [UInt64.toNat_add, UInt64.toNat_one, UInt64.toNat_zero] at c ⊢
+    omega
+  · rw [if_neg c]
+    rw [beq_iff_eq, ← UInt64.toNat_inj, UInt64.toNat_add] at c
+    simp only [UInt64.toNat_add, UInt64.toNat_one, UInt64.toNat_zero] at c ⊢
+    omega
+
+/-- `res −= 1` -/
+theorem wdec (a : U128) (h : 1 ≤ val128 a) :
+    val128 (if (a.w0 - 1 == (0xffffffffffffffff : UInt64)) = true then (⟨a.w0 - 1, a.w1 - 1⟩ : U128) else ⟨a.w0 - 1, a.w1⟩) =
+      val128 a - 1 := by
+  have := a.w0.toNat_lt; have := a.w1.toNat_lt
+  unfold val128 at h ⊢
+  have e : (0xffffffffffffffff : UInt64).toNat = 2 ^ 64 - 1 := by decide
+  by_cases c : (a.w0 - 1 == (0xffffffffffffffff : UInt64)) = true
+  · rw [if_pos c]
+    rw [beq_iff_eq, ← UInt64.toNat_inj, UInt64.toNat_sub, e] at c
+    simp only [UInt64.toNat_sub, UInt64.toNat_one] at c ⊢
+    omega
+  · rw [if_neg c]
+    rw [beq_iff_eq, ← UInt64.toNat_inj, UInt64.toNat_sub, e] at c
+    simp only [UInt64.toNat_sub, UInt64.toNat_one] at c ⊢
+    omega
+
+theorem mask_coeff_id (w : UInt64) (h : w.toNat < 2 ^ 49) : w &&& c_MASK_COEFF = w := by
+  rw [← UInt64.toNat_inj, show c_MASK_COEFF = 0x1ffffffffffff from rfl, Dec.C13GenNoncomp.coeff_hi]
+  omega
+
+theorem hi_small (r : U128) (h : val128 r < 2 ^ 113) : r.w1.toNat < 2 ^ 49 := by
+  unfold val128 at h; omega
+
+/-- the test `res > 10^34 − 1` -/
+theorem gt_p34m1 (r : U128) :
+    (decide (r.w1 > (0x1ed09bead87c0 : UInt64)) || ((r.w1 == (0x1ed09bead87c0 : UInt64)) && decide (r.w0 > (0x378d8e63ffffffff : UInt64)))) =
+      decide (P34 - 1 < val128 r) := by
+  rw [Dec.C13GenNoncomp.gt128, decide_eq_decide]
+  unfold val128
+  have : P34 - 1 = (0x1ed09bead87c0 : UInt64).toNat * 2 ^ 64 + (0x378d8e63ffffffff : UInt64).toNat := by decide
+  rw [this]
+
+/-- the test `res < 10^33` -/
+theorem lt_p33 (r : U128) :
+    (decide (r.w1 < (0x314dc6448d93 : UInt64)) || ((r.w1 == (0x314dc6448d93 : UInt64)) && decide (r.w0 < (0x38c15b0a00000000 : UInt64)))) =
+      decide (val128 r < P33) := by
+  rw [Dec.C13GenNoncomp.lt128, decide_eq_decide]
+  unfold val128
+  have : P33 = (0x314dc6448d93 : UInt64).toNat * 2 ^ 64 + (0x38c15b0a00000000 : UInt64).toNat := by decide
+  rw [this]
+
+/-- the test `res = 10^33` -/
+theorem eq_p33 (r : U128) :
+    ((r.w1 == (0x314dc6448d93 : UInt64)) && (r.w0 == (0x38c15b0a00000000 : UInt64))) = decide (val128 r = P33) := by
+  have h0 := r.w0.toNat_lt
+  rw [Bool.eq_iff_iff, Bool.and_eq_true, beq_iff_eq, beq_iff_eq, decide_eq_true_eq, ← UInt64.toNat_inj, ← UInt64.toNat_inj]
+  unfold val128
+  have : P33 = 0x314dc6448d93 * 2 ^ 64 + 0x38c15b0a00000000 := by decide
+  rw [this]
+  show r.w1.toNat = 0x314dc6448d93 ∧ r.w0.toNat = 0x38c15b0a00000000 ↔ _
+  omega
+
+theorem zero_test (r : U128) : ((r.w1 == (0 : UInt64)) && (r.w0 == (0 : UInt64))) = decide (val128 r = 0) := by
+  rw [Dec.C13GenNoncomp.zero128]; rfl
+
+
+open Dec.RH (Ind)
+open Dec.Rs Dec.Gen.Code
+open Dec.C03GenCompare (val128 val256)
+open Dec.C02RoundHelpers (Spec rne)
+
+/-! ### the pieces of the sum -/
+
+theorem sameAddK_spec {α : Type} (res : U128) (lsb : Bool) (R128 : U128) (k : U128 → Bool → Except String α)
+    (h : val128 res + val128 R128 < 2 ^ 128) :
+    ∃ r, sameAddK res lsb R128 k = k r (decide (val128 res % 2 = 1)) ∧ val128 r = val128 res + val128 R128 := by
+  have hw := wadd res R128 h
+  unfold sameAddK
+  simp only [bind, Except.bind, pure, Except.pure]
+  rw [odd_word, ← val128_odd]
+  by_cases c : res.w0 + R128.w0 < R128.w0
+  · rw [if_pos (by simpa using c)] at hw ⊢
+    exact ⟨_, rfl, hw⟩
+  · rw [if_neg (by simpa using c)] at hw ⊢
+    exact ⟨_, rfl, hw⟩
+
+theorem diffSubK_spec {α : Type} (res : U128) (lsb : Bool) (tmp64 : UInt64) (R128 : U128)
+    (k : U128 → Bool → UInt64 → Except String α) (h : val128 R128 ≤ val128 res) :
+    ∃ r t, diffSubK res lsb tmp64 R128 k = k r (decide (val128 res % 2 = 1)) t ∧ val128 r = val128 res - val128 R128 := by
+  have hw := wsub res R128 h
+  unfold diffSubK
+  simp only [bind, Except.bind, pure, Except.pure]
+  rw [odd_word, ← val128_odd]
+  by_cases c : res.w0 - R128.w0 > res.w0
+  · rw [if_pos (by simpa using c)] at hw ⊢
+    exact ⟨_, _, rfl, hw⟩
+  · rw [if_neg (by simpa using c)] at hw ⊢
+    exact ⟨_, _, rfl, hw⟩
+
+/-- **the 35-digit sum**: one digit rounded off; the indicators of the first rounding move to the `…0` variables -/
+theorem same35K_spec {α : Type} (res : U128) (ML MG L G ML0 MG0 L0 G0 incr : Bool) (P128 : U128)
+    (k : U128 → Bool → Bool → Bool → Bool → Bool → Bool → Bool → Bool → Bool → U128 → Except String α)
+    (c1 : Nat) (hres : val128 res = c1) (hlo : P34 ≤ c1) (hhi : c1 < 2 * P34) :
+    ∃ (r : U128) (ML' MG' L' G' incr' : Bool) (P' : U128),
+      same35K res ML MG L G ML0 MG0 L0 G0 incr P128 k = k r ML' MG' L' G' ML MG L G incr' P' ∧
+      NE c1 (10 ^ 1) (val128 r) ⟨ML', MG', L', G'⟩ := by
+  have e34 : P34 = 10000000000000000000000000000000000 := rfl
+  have hv : Dec.C02GenRound.v128 (⟨res.w0, res.w1⟩ : U128) = c1 := by rw [v128_val]; exact hres
+  have h35 : c1 < 10 ^ 35 := by
+    have : (10 : Nat) ^ 35 = 100000000000000000000000000000000000 := by norm_num
+    omega
+  obtain ⟨cs, ic, lt, gt, ilt, igt, hcall, sp⟩ := Dec.C02GenRound.bid_round128_19_38_spec 35 1 ⟨res.w0, res.w1⟩ (by omega) (by omega)
+    (le_refl 1) (by omega) (by rw [hv]; exact h35)
+  unfold same35K
+  simp only [bind, Except.bind, pure, Except.pure]
+  rw [r128_incr]
+  have e1 : (0x23 : Int32) = Int32.ofNat 35 := rfl
+  have e2 : (1 : Int32) = Int32.ofNat 1 := rfl
+  rw [e1, e2, hcall]
+  simp only []
+  rw [hv, v128_val] at sp
+  obtain ⟨u1, u2⟩ := spec_undo sp (by omega)
+  have hne := spec_NE 35 1 c1 _ ic ⟨lt, gt, ilt, igt⟩ sp (le_refl 1)
+  have hic : ic = false := by
+    cases hi : ic
+    · rfl
+    · exfalso
+      have hr := (u1 hi).2
+      have hn := hne.near.2
+      rw [hr, show 35 - 1 = 34 from rfl, show (10 : Nat) ^ 34 = 10000000000000000000000000000000000 from by norm_num,
+        show (10 : Nat) ^ 1 = 10 from rfl] at hn
+      omega
+  refine ⟨cs, lt, gt, ilt, igt, ic, _, rfl, ?_⟩
+  rw [u2 hic]; exact hne
+
+
+/-- the word adjustments of the repair -/
+def wDec (a : U128) : U128 :=
+  if (a.w0 - 1 == (0xffffffffffffffff : UInt64)) = true then ⟨a.w0 - 1, a.w1 - 1⟩ else ⟨a.w0 - 1, a.w1⟩
+def wInc (a : U128) : U128 :=
+  if (a.w0 + 1 == (0 : UInt64)) = true then ⟨a.w0 + 1, a.w1 + 1⟩ else ⟨a.w0 + 1, a.w1⟩
+
+/-- the repair, on words -/
+def dblFixW (res : U128) (f0 f : Ind) : U128 :=
+  if ((f0.inexGtMid || f0.midLtEven) && f.midLtEven) = true then wDec res
+  else if ((f0.inexLtMid || f0.midGtEven) && f.midGtEven) = true then wInc res
+  else res
+
+theorem dblFixK_eq {α : Type} (res : U128) (ML MG L G ML0 MG0 L0 G0 : Bool)
+    (k : U128 → Bool → Bool → Bool → Bool → Except String α) :
+    dblFixK res ML MG L G ML0 MG0 L0 G0 k =
+      k (dblFixW res ⟨ML0, MG0, L0, G0⟩ ⟨ML, MG, L, G⟩)
+        (dblFix 0 ⟨ML0, MG0, L0, G0⟩ ⟨ML, MG, L, G⟩).2.midLtEven (dblFix 0 ⟨ML0, MG0, L0, G0⟩ ⟨ML, MG, L, G⟩).2.midGtEven
+        (dblFix 0 ⟨ML0, MG0, L0, G0⟩ ⟨ML, MG, L, G⟩).2.inexLtMid (dblFix 0 ⟨ML0, MG0, L0, G0⟩ ⟨ML, MG, L, G⟩).2.inexGtMid := by
+  unfold dblFixK dblFixW dblFix wDec wInc
+  dsimp only
+  generalize (res.w0 - 1 == (0xffffffffffffffff : UInt64)) = b1
+  generalize (res.w0 + 1 == (0 : UInt64)) = b2
+  cases ML <;> cases MG <;> cases L <;> cases G <;> cases ML0 <;> cases MG0 <;> cases L0 <;> cases G0 <;>
+    cases b1 <;> cases b2 <;> rfl
+
+
+theorem dblFix_snd (c c' : Nat) (f0 f : Ind) : (dblFix c f0 f).2 = (dblFix c' f0 f).2 := by
+  unfold dblFix; split_ifs <;> rfl
+
+theorem dblFixW_val (res : U128) (f0 f : Ind) (h1 : 1 ≤ val128 res) (h2 : val128 res + 1 < 2 ^ 128) :
+    val128 (dblFixW res f0 f) = (dblFix (val128 res) f0 f).1 := by
+  unfold dblFixW dblFix
+  split_ifs
+  · exact wdec res h1
+  · exact winc res h2
+  all_goals rfl
+
+theorem sameTailK_eq {α : Type} (e3 : Int32) (ML MG L G ML0 MG0 L0 G0 : Bool) (k : Int32 → Bool → Except String α) :
+    sameTailK e3 ML MG L G ML0 MG0 L0 G0 k = k (e3 + 1) (tailFix ⟨ML0, MG0, L0, G0⟩ ⟨ML, MG, L, G⟩).inexLtMid := by
+  unfold sameTailK tailFix
+  dsimp only
+  cases ML <;> cases MG <;> cases L <;> cases G <;> cases ML0 <;> cases MG0 <;> cases L0 <;> cases G0 <;> rfl
+
+theorem uTailK_eq {α : Type} (e3 x0 : Int32) (ML MG L G ML0 MG0 L0 G0 : Bool) (k : Int32 → Bool → Except String α) :
+    uTailK e3 x0 ML MG L G ML0 MG0 L0 G0 k = k (e3 + x0) (tailFix ⟨ML0, MG0, L0, G0⟩ ⟨ML, MG, L, G⟩).inexLtMid := by
+  unfold uTailK tailFix
+  dsimp only
+  cases ML <;> cases MG <;> cases L <;> cases G <;> cases ML0 <;> cases MG0 <;> cases L0 <;> cases G0 <;> rfl
+
+theorem uPrepK_eq {α : Type} (e3 x0 : Int32) (ML MG L G ML0 MG0 L0 G0 tiny : Bool) (t : Int32)
+    (k : Int32 → Bool → Bool → Bool → Bool → Bool → Bool → Bool → Bool → Bool → Except String α) :
+    uPrepK e3 x0 ML MG L G ML0 MG0 L0 G0 tiny t k = k (c_EXP_MIN_UNBIASED - e3) false false false false ML MG L G true := rfl
+
+/-- the tiny test at the least exponent -/
+theorem tinyK_spec {α : Type} (res : U128) (ML G tiny : Bool) (t : Int32) (k : Bool → Except String α)
+    (c : Nat) (hres : val128 res = c) (hc : c < 2 ^ 113) :
+    tinyK res ML G tiny t k = k (tiny || (decide (c < P33) || (decide (c = P33) && (G || ML)))) := by
+  have hm := mask_coeff_id res.w1 (hi_small res (by rw [hres]; exact hc))
+  have hm2 : res.w1 &&& (0x7fffffffffffffff : UInt64) = res.w1 := by
+    have := hi_small res (by rw [hres]; exact hc)
+    rw [← UInt64.toNat_inj, UInt64.toNat_and, show (0x7fffffffffffffff : UInt64).toNat = 2 ^ 63 - 1 from by decide,
+      Nat.and_two_pow_sub_one_eq_mod]
+    omega
+  unfold tinyK
+  simp only [bind, Except.bind, pure, Except.pure]
+  rw [hm, hm2, lt_p33, eq_p33, hres]
+  cases tiny <;> cases decide (c < P33) <;> cases decide (c = P33) <;> cases G <;> cases ML <;> rfl
+
+
+open Dec.RH (Ind)
+open Dec.Rs Dec.Gen.Code
+open Dec.C03GenCompare (val128 val256)
+open Dec.C02GenCorrection (i32_add1 deliver)
+
+/-- **same signs, at most 34 digits: the tie-break repair** with the carry into `10^34` renormalised; the branch that returns a
+zero is not taken (`hnz`) -/
+theorem sameLsbK_spec (p1 p2 p3 p4 : Bool) (rnd_mode : RoundingMode) (pfpsf : UInt32) (res : U128) (z_sign : UInt64)
+    (e3 scale ind x0 : Int32) (ML MG L G ML0 MG0 L0 G0 incr_exp lsb is_tiny : Bool) (R64 tmp64 : UInt64)
+    (P128 R128 : U128) (P192 R192 : U192) (R256 : U256)
+    (k : Bool → Bool → Bool → Bool → U128 → UInt64 → Int32 → Bool → Bool → Except String
+      (ForInStep (Option (U128 × Bool × Bool × Bool × Bool × UInt32) × (Bool × Bool × Bool × Bool × UInt32 × U128 × UInt64 × Int32 × Int32 × Int32 × Int32 × Bool × Bool × Bool × Bool × Bool × Bool × Bool × Bool × Bool × Bool × Bool × UInt64 × UInt64 × U128 × U128 × U192 × U192 × U256))))
+    (c1 : Nat) (E : Int) (hres : val128 res = c1) (hc1 : c1 ≤ P34 - 1) (he3 : e3.toInt = E) (hE : -2^30 < E ∧ E < 2^30)
+    (hnz : 1 ≤ (lsbFixSame lsb c1 ⟨ML, MG, L, G⟩).1) :
+    ∃ (r : U128) (e3' : Int32),
+      sameLsbK p1 p2 p3 p4 rnd_mode pfpsf res z_sign e3 scale ind x0 ML MG L G ML0 MG0 L0 G0 incr_exp lsb is_tiny R64 tmp64
+          P128 R128 P192 R192 R256 k =
+        k p1 p2 p3 p4 r z_sign e3' (lsbFixSame lsb c1 ⟨ML, MG, L, G⟩).2.midLtEven (lsbFixSame lsb c1 ⟨ML, MG, L, G⟩).2.midGtEven ∧
+      (lsbFixSame lsb c1 ⟨ML, MG, L, G⟩).2.inexLtMid = L ∧ (lsbFixSame lsb c1 ⟨ML, MG, L, G⟩).2.inexGtMid = G ∧
+      ((val128 r = (lsbFixSame lsb c1 ⟨ML, MG, L, G⟩).1 ∧ e3'.toInt = E ∧ (lsbFixSame lsb c1 ⟨ML, MG, L, G⟩).1 ≠ P34) ∨
+       ((lsbFixSame lsb c1 ⟨ML, MG, L, G⟩).1 = P34 ∧ val128 r = P33 ∧ e3'.toInt = E + 1)) := by
+  have h113 : (2 : Nat) ^ 113 < 2 ^ 128 := by decide
+  have e34 : P34 = 10000000000000000000000000000000000 := rfl
+  have hP : P34 < 2 ^ 113 := by decide
+  have hm := mask_coeff_id res.w1 (hi_small res (by rw [hres]; omega))
+  unfold sameLsbK
+  simp only [bind, Except.bind, pure, Except.pure]
+  rw [hm]
+  have hstruct : ({ res with w1 := res.w1 } : U128) = res := rfl
+  cases lsb
+  · -- even: nothing to repair
+    simp only [Bool.false_eq_true, if_false]
+    have hfix : (lsbFixSame false c1 ⟨ML, MG, L, G⟩) = (c1, ⟨ML, MG, L, G⟩) := rfl
+    rw [hfix]
+    exact ⟨_, _, rfl, rfl, rfl, Or.inl ⟨hres, he3, by simp only []; omega⟩⟩
+  · simp only [if_true]
+    cases MG
+    · cases ML
+      · simp only [Bool.false_eq_true, if_false]
+        have hfix : (lsbFixSame true c1 ⟨false, false, L, G⟩) = (c1, ⟨false, false, L, G⟩) := rfl
+        rw [hfix]
+        exact ⟨_, _, rfl, rfl, rfl, Or.inl ⟨hres, he3, by simp only []; omega⟩⟩
+      · -- one unit down
+        simp only [Bool.false_eq_true, if_false, if_true]
+        have hfix : (lsbFixSame true c1 ⟨true, false, L, G⟩) = (c1 - 1, ⟨false, true, L, G⟩) := rfl
+        rw [hfix] at hnz ⊢
+        simp only [] at hnz
+        have hw := wdec res (by rw [hres]; omega)
+        have hz : ∀ r : U128, val128 r = c1 - 1 → ((r.w1 == (0 : UInt64)) && (r.w0 == (0 : UInt64))) = false := by
+          intro r hr; rw [zero_test, hr]; exact decide_eq_false (by omega)
+        by_cases c : (res.w0 - 1 == (0xffffffffffffffff : UInt64)) = true
+        · rw [if_pos c] at hw ⊢
+          rw [hres] at hw
+          rw [hz _ hw]
+          rw [if_neg (by decide)]
+          exact ⟨_, _, rfl, rfl, rfl, Or.inl ⟨hw, he3, by show c1 - 1 ≠ P34; omega⟩⟩
+        · rw [if_neg c] at hw ⊢
+          rw [hres] at hw
+          rw [hz _ hw]
+          rw [if_neg (by decide)]
+          exact ⟨_, _, rfl, rfl, rfl, Or.inl ⟨hw, he3, by show c1 - 1 ≠ P34; omega⟩⟩
+    · -- one unit up
+      simp only [if_true]
+      have hfix : (lsbFixSame true c1 ⟨ML, true, L, G⟩) = (c1 + 1, ⟨true, false, L, G⟩) := rfl
+      rw [hfix]
+      have hw := winc res (by rw [hres]; omega)
+      have key : ∀ r : U128, val128 r = c1 + 1 →
+          ∃ (r' : U128) (e3' : Int32),
+            (if ((r.w1 == (0x1ed09bead87c0 : UInt64)) && (r.w0 == (0x378d8e6400000000 : UInt64))) = true then
+              k p1 p2 p3 p4 ⟨0x38c15b0a00000000, 0x314dc6448d93⟩ z_sign (e3 + 1) true false
+             else k p1 p2 p3 p4 r z_sign e3 true false) = k p1 p2 p3 p4 r' z_sign e3' true false ∧
+            ((val128 r' = c1 + 1 ∧ e3'.toInt = E ∧ c1 + 1 ≠ P34) ∨ (c1 + 1 = P34 ∧ val128 r' = P33 ∧ e3'.toInt = E + 1)) := by
+        intro r hr
+        rw [p34_test, hr]
+        by_cases h34 : c1 + 1 = P34
+        · rw [if_pos (by simpa using h34)]
+          exact ⟨_, _, rfl, Or.inr ⟨h34, val128_p33, i32_add1 e3 E he3 (by omega) (by omega)⟩⟩
+        · rw [if_neg (by simpa using h34)]
+          exact ⟨_, _, rfl, Or.inl ⟨hr, he3, h34⟩⟩
+      by_cases c : (res.w0 + 1 == (0 : UInt64)) = true
+      · rw [if_pos c] at hw ⊢
+        rw [hres] at hw
+        obtain ⟨r', e3', h1, h2⟩ := key _ hw
+        exact ⟨r', e3', h1, rfl, rfl, h2⟩
+      · rw [if_neg c] at hw ⊢
+        rw [hres] at hw
+        obtain ⟨r', e3', h1, h2⟩ := key _ hw
+        exact ⟨r', e3', h1, rfl, rfl, h2⟩
+
+
+/-- **opposite signs: the indicators change sides, the tie-break is repaired** (carry into `10^34` renormalised; the branch that
+returns a zero is not taken: `hnz`) -/
+theorem diffFixK_spec (p1 p2 p3 p4 : Bool) (rnd_mode : RoundingMode) (pfpsf : UInt32) (res : U128) (z_sign : UInt64)
+    (e3 scale ind x0 : Int32) (ML MG L G ML0 MG0 L0 G0 incr_exp lsb is_tiny : Bool) (R64 tmp64 : UInt64)
+    (P128 R128 : U128) (P192 R192 : U192) (R256 : U256)
+    (k : Bool → Bool → Bool → Bool → U128 → UInt64 → Int32 → Bool → Bool → Bool → Bool → Except String
+      (ForInStep (Option (U128 × Bool × Bool × Bool × Bool × UInt32) × (Bool × Bool × Bool × Bool × UInt32 × U128 × UInt64 × Int32 × Int32 × Int32 × Int32 × Bool × Bool × Bool × Bool × Bool × Bool × Bool × Bool × Bool × Bool × Bool × UInt64 × UInt64 × U128 × U128 × U192 × U192 × U256))))
+    (c1 : Nat) (E : Int) (hres : val128 res = c1) (hc1 : c1 ≤ P34) (he3 : e3.toInt = E) (hE : -2^30 < E ∧ E < 2^30)
+    (hcan : Canon ⟨ML, MG, L, G⟩) (hnz : 1 ≤ (lsbFixDiff lsb c1 ⟨ML, MG, L, G⟩).1) :
+    ∃ (r : U128) (e3' : Int32),
+      diffFixK p1 p2 p3 p4 rnd_mode pfpsf res z_sign e3 scale ind x0 ML MG L G ML0 MG0 L0 G0 incr_exp lsb is_tiny R64 tmp64
+          P128 R128 P192 R192 R256 k =
+        k p1 p2 p3 p4 r z_sign e3' (lsbFixDiff lsb c1 ⟨ML, MG, L, G⟩).2.midLtEven (lsbFixDiff lsb c1 ⟨ML, MG, L, G⟩).2.midGtEven
+          (lsbFixDiff lsb c1 ⟨ML, MG, L, G⟩).2.inexLtMid (lsbFixDiff lsb c1 ⟨ML, MG, L, G⟩).2.inexGtMid ∧
+      ((val128 r = (lsbFixDiff lsb c1 ⟨ML, MG, L, G⟩).1 ∧ e3'.toInt = E) ∨
+       ((lsbFixDiff lsb c1 ⟨ML, MG, L, G⟩).1 = P34 ∧ val128 r = P33 ∧ e3'.toInt = E + 1)) := by
+  have h113 : (2 : Nat) ^ 113 < 2 ^ 128 := by decide
+  have e34 : P34 = 10000000000000000000000000000000000 := rfl
+  have hP : P34 < 2 ^ 113 := by decide
+  unfold diffFixK
+  simp only [bind, Except.bind, pure, Except.pure]
+  -- the inexact and the no-repair cases: indicators only
+  have plain : ∀ (fl' : Ind), lsbFixDiff lsb c1 ⟨ML, MG, L, G⟩ = (c1, fl') →
+      ∃ (r : U128) (e3' : Int32), k p1 p2 p3 p4 res z_sign e3 fl'.midLtEven fl'.midGtEven fl'.inexLtMid fl'.inexGtMid =
+        k p1 p2 p3 p4 r z_sign e3' (lsbFixDiff lsb c1 ⟨ML, MG, L, G⟩).2.midLtEven (lsbFixDiff lsb c1 ⟨ML, MG, L, G⟩).2.midGtEven
+          (lsbFixDiff lsb c1 ⟨ML, MG, L, G⟩).2.inexLtMid (lsbFixDiff lsb c1 ⟨ML, MG, L, G⟩).2.inexGtMid ∧
+        ((val128 r = (lsbFixDiff lsb c1 ⟨ML, MG, L, G⟩).1 ∧ e3'.toInt = E) ∨
+         ((lsbFixDiff lsb c1 ⟨ML, MG, L, G⟩).1 = P34 ∧ val128 r = P33 ∧ e3'.toInt = E + 1)) := by
+    intro fl' h
+    rw [h]
+    exact ⟨res, e3, rfl, Or.inl ⟨hres, he3⟩⟩
+  rcases hcan with e | e | e | e | e <;> obtain ⟨rfl, rfl, rfl, rfl⟩ := Ind.mk.inj e
+  · -- exact
+    cases lsb <;> exact plain _ rfl
+  · -- inexact, below the midpoint (of the product's rounding)
+    cases lsb <;> exact plain _ rfl
+  · cases lsb <;> exact plain _ rfl
+  · -- midpoint, product rounded up
+    cases lsb
+    · exact plain _ rfl
+    · -- one unit up
+      simp only [Bool.false_eq_true, if_false, if_true, Bool.not_true]
+      have hfix : (lsbFixDiff true c1 fML) = (c1 + 1, fML) := rfl
+      have hfix' : (lsbFixDiff true c1 ⟨true, false, false, false⟩) = (c1 + 1, ⟨true, false, false, false⟩) := rfl
+      rw [hfix']
+      have hw := winc res (by rw [hres]; omega)
+      have key : ∀ r : U128, val128 r = c1 + 1 →
+          ∃ (r' : U128) (e3' : Int32),
+            (if ((r.w1 == (0x1ed09bead87c0 : UInt64)) && (r.w0 == (0x378d8e6400000000 : UInt64))) = true then
+              k p1 p2 p3 p4 ⟨0x38c15b0a00000000, 0x314dc6448d93⟩ z_sign (e3 + 1) true false false false
+             else k p1 p2 p3 p4 r z_sign e3 true false false false) = k p1 p2 p3 p4 r' z_sign e3' true false false false ∧
+            ((val128 r' = c1 + 1 ∧ e3'.toInt = E) ∨ (c1 + 1 = P34 ∧ val128 r' = P33 ∧ e3'.toInt = E + 1)) := by
+        intro r hr
+        rw [p34_test, hr]
+        by_cases h34 : c1 + 1 = P34
+        · rw [if_pos (by simpa using h34)]
+          exact ⟨_, _, rfl, Or.inr ⟨h34, val128_p33, i32_add1 e3 E he3 (by omega) (by omega)⟩⟩
+        · rw [if_neg (by simpa using h34)]
+          exact ⟨_, _, rfl, Or.inl ⟨hr, he3⟩⟩
+      by_cases c : (res.w0 + 1 == (0 : UInt64)) = true
+      · rw [if_pos c] at hw ⊢
+        rw [hres] at hw
+        exact key _ hw
+      · rw [if_neg c] at hw ⊢
+        rw [hres] at hw
+        exact key _ hw
+  · -- midpoint, product rounded down
+    cases lsb
+    · exact plain _ rfl
+    · -- one unit down
+      simp only [Bool.false_eq_true, if_false, if_true, Bool.not_true]
+      have hfix' : (lsbFixDiff true c1 ⟨false, true, false, false⟩) = (c1 - 1, ⟨false, true, false, false⟩) := rfl
+      rw [hfix'] at hnz ⊢
+      have hnz' : 1 ≤ c1 - 1 := hnz
+      have hw := wdec res (by rw [hres]; omega)
+      have hz : ∀ r : U128, val128 r = c1 - 1 → ((r.w1 == (0 : UInt64)) && (r.w0 == (0 : UInt64))) = false := by
+        intro r hr; rw [zero_test, hr]; exact decide_eq_false (by omega)
+      by_cases c : (res.w0 - 1 == (0xffffffffffffffff : UInt64)) = true
+      · rw [if_pos c] at hw ⊢
+        rw [hres] at hw
+        rw [hz _ hw, if_neg (by decide)]
+        exact ⟨_, _, rfl, Or.inl ⟨hw, he3⟩⟩
+      · rw [if_neg c] at hw ⊢
+        rw [hres] at hw
+        rw [hz _ hw, if_neg (by decide)]
+        exact ⟨_, _, rfl, Or.inl ⟨hw, he3⟩⟩
+
+
+open Dec.RH (Ind)
+open Dec.Rs Dec.Gen.Code
+open Dec.C03GenCompare (val128 val256)
+open Dec.C02RoundHelpers (Spec rne)
+open Dec.C02GenRound (v128)
+
+/-! ### the digit count of `res` (`take_while(..).count()` over the tables of powers of ten)
+
+`countWhileAux_spec`, `count64`, `count128` are the lemmas of `C02GenFmaLow` (block "Low", where the same idiom occurs in
+`bid_add_and_round`), repeated here so that the two files do not depend on each other. -/
+
+theorem countWhileAux_spec {α : Type} (get : Nat → Except String α) (p : α → Bool) (m : Nat) :
+    ∀ (n i acc : Nat), (∀ j, i ≤ j → j < i + n → ∃ v, get j = .ok v ∧ p v = decide (j < m)) →
+      countWhileAux get p n i acc = .ok (acc + (min (i + n) (max m i) - i)) := by
+  intro n
+  induction n with
+  | zero => intro i acc _; simp [countWhileAux]
+  | succ n ih =>
+    intro i acc h
+    obtain ⟨v, hv, hp⟩ := h i (le_refl _) (by omega)
+    unfold countWhileAux
+    simp only [bind, Except.bind, hv]
+    by_cases him : i < m
+    · rw [hp, decide_eq_true him, if_pos rfl, ih (i + 1) (acc + 1) (fun j h1 h2 => h j (by omega) (by omega))]
+      congr 1; omega
+    · rw [hp, decide_eq_false him]
+      simp only [Bool.false_eq_true, if_false, pure, Except.pure]
+      congr 1; omega
+
+theorem pow_le_iff_lt_ndigits (R j : Nat) : 10 ^ j ≤ R ↔ j < ndigits R := by
+  by_cases h : 0 < R
+  · exact (lt_ndigits_iff h).symm
+  · have : R = 0 := by omega
+    subst this
+    rw [ndigits_zero]
+    have : 0 < 10 ^ j := Nat.pow_pos (by decide)
+    omega
+
+theorem ten64_get (j : Nat) (hj : j < 20) :
+    ∃ v, tbl64 Dec.Gen.BID_TEN2K64 (UInt64.ofNat j) = .ok v ∧ v.toNat = 10 ^ j := by
+  obtain ⟨v, hv, hv10⟩ := Dec.C03GenCompare.tbl64_ten (UInt64.ofNat j) (by rw [UInt64.toNat_ofNat', Nat.mod_eq_of_lt (by omega)]; exact hj)
+  exact ⟨v, hv, by rw [hv10, UInt64.toNat_ofNat', Nat.mod_eq_of_lt (by omega)]⟩
+
+theorem ten128_get (j : Nat) (hj : j < 19) :
+    ∃ v, tbl128 Dec.Gen.BID_TEN2K128 (UInt64.ofNat j) = .ok v ∧ val128 v = 10 ^ (j + 20) := by
+  obtain ⟨v, hv, hv10⟩ := Dec.C03GenCompare.tbl128_ten (UInt64.ofNat j) (by rw [UInt64.toNat_ofNat', Nat.mod_eq_of_lt (by omega)]; exact hj)
+  exact ⟨v, hv, by rw [hv10, UInt64.toNat_ofNat', Nat.mod_eq_of_lt (by omega)]⟩
+
+/-- the count over `BID_TEN2K64[1..=19]` -/
+theorem count64 (w : UInt64) :
+    countWhile64 Dec.Gen.BID_TEN2K64 1 19 (fun x => decide (w ≥ x))
+      = .ok (UInt64.ofNat (min 20 (max (ndigits w.toNat) 1) - 1)) := by
+  unfold countWhile64
+  obtain ⟨v19, h19, -⟩ := ten64_get 19 (by omega)
+  rw [h19]
+  simp only [bind, Except.bind, pure, Except.pure]
+  rw [countWhileAux_spec _ _ (ndigits w.toNat) (19 + 1 - 1) 1 0 (fun j h1 h2 => by
+    obtain ⟨v, hv, hv10⟩ := ten64_get j (by omega)
+    refine ⟨v, hv, ?_⟩
+    rw [decide_eq_decide, ge_iff_le, UInt64.le_iff_toNat_le, hv10]
+    exact pow_le_iff_lt_ndigits _ _)]
+  simp
+
+/-- the count over `BID_TEN2K128[1..=18]` -/
+theorem count128 (w1 w0 : UInt64) :
+    countWhile128 Dec.Gen.BID_TEN2K128 1 18
+        (fun d => !((decide (w1 < d.w1)) || ((w1 == d.w1) && (decide (w0 < d.w0)))))
+      = .ok (UInt64.ofNat (min 19 (max (ndigits (w1.toNat * 2 ^ 64 + w0.toNat) - 20) 1) - 1)) := by
+  unfold countWhile128
+  obtain ⟨v18, h18, -⟩ := ten128_get 18 (by omega)
+  rw [h18]
+  simp only [bind, Except.bind, pure, Except.pure]
+  rw [countWhileAux_spec _ _ (ndigits (w1.toNat * 2 ^ 64 + w0.toNat) - 20) (18 + 1 - 1) 1 0 (fun j h1 h2 => by
+    obtain ⟨v, hv, hv10⟩ := ten128_get j (by omega)
+    refine ⟨v, hv, ?_⟩
+    rw [Dec.C13GenNoncomp.lt128, ← decide_not, decide_eq_decide]
+    unfold val128 at hv10
+    rw [hv10]
+    have := pow_le_iff_lt_ndigits (w1.toNat * 2 ^ 64 + w0.toNat) (j + 20)
+    omega)]
+  simp
+
+theorem ofIdx (k : Nat) (hk : k < 2 ^ 20) : (Int32.ofInt (toI (UInt64.ofNat k))).toInt = k := by
+  show (Int32.ofInt ((UInt64.ofNat k).toNat : Int)).toInt = k
+  rw [UInt64.toNat_ofNat', Nat.mod_eq_of_lt (by omega), Int32.toInt_ofInt]
+  exact Dec.C13GenNoncomp.bmod32 _ (by omega) (by omega)
+
+/-- **the number of decimal digits of `res`** (`1 ≤ res < 10^38`) -/
+theorem ndigK_spec {α : Type} (res : U128) (ind : Int32) (k : Int32 → Except String α) (c : Nat) (hres : val128 res = c)
+    (hc0 : 0 < c) (hc : c < 10 ^ 38) :
+    ∃ i : Int32, ndigK res ind k = k i ∧ i.toInt = ndigits c := by
+  have hl := res.w0.toNat_lt
+  have hN1 : 1 ≤ ndigits c := ndigits_pos hc0
+  have hN38 : ndigits c ≤ 38 := (ndigits_le_iff hc0).2 hc
+  unfold ndigK
+  simp only [bind, Except.bind, pure, Except.pure]
+  by_cases hw1 : res.w1.toNat = 0
+  · -- one word
+    rw [if_pos (by rw [beq_iff_eq, ← UInt64.toNat_inj]; exact hw1)]
+    have hw0 : res.w0.toNat = c := by unfold val128 at hres; rw [hw1] at hres; omega
+    rw [count64, hw0]
+    simp only []
+    have hN20 : ndigits c ≤ 20 := by
+      rw [ndigits_le_iff hc0]
+      calc c < 2 ^ 64 := by omega
+        _ < 10 ^ 20 := by norm_num
+    refine ⟨_, rfl, ?_⟩
+    have e : min 20 (max (ndigits c) 1) - 1 = ndigits c - 1 := by omega
+    rw [e, i32_add' _ 1 ((ndigits c - 1 : Nat) : Int) 1 (ofIdx _ (by omega)) rfl (by omega) (by omega)]
+    omega
+  · rw [if_neg (by rw [beq_iff_eq, ← UInt64.toNat_inj]; exact hw1)]
+    obtain ⟨v0, h0, hv0⟩ := ten128_get 0 (by omega)
+    have e0 : UInt64.ofInt (toI 0) = UInt64.ofNat 0 := rfl
+    rw [e0, h0]
+    simp only []
+    have hlt : (if decide (res.w1 < v0.w1) = true then Except.ok true
+        else (if (res.w1 == v0.w1) = true then Except.ok (decide (res.w0 < v0.w0)) else Except.ok false : Except String Bool)) =
+        .ok (decide (c < 10 ^ 20)) := by
+      have : (decide (res.w1 < v0.w1) || ((res.w1 == v0.w1) && decide (res.w0 < v0.w0))) = decide (c < 10 ^ 20) := by
+        rw [Dec.C13GenNoncomp.lt128, decide_eq_decide]
+        unfold val128 at hv0 hres
+        rw [hv0, hres]
+      rw [← this]
+      cases decide (res.w1 < v0.w1) <;> cases (res.w1 == v0.w1) <;> rfl
+    rw [hlt]
+    simp only []
+    have hc64 : 2 ^ 64 ≤ c := by
+      unfold val128 at hres
+      have : 2 ^ 64 ≤ res.w1.toNat * 2 ^ 64 := Nat.le_mul_of_pos_left _ (by omega)
+      omega
+    have hN20 : 20 ≤ ndigits c := by
+      have : 19 < ndigits c := (lt_ndigits_iff hc0).2 (by
+        calc (10 : Nat) ^ 19 ≤ 2 ^ 64 := by norm_num
+          _ ≤ c := hc64)
+      omega
+    by_cases h20 : c < 10 ^ 20
+    · rw [if_pos (by simpa using h20)]
+      refine ⟨_, rfl, ?_⟩
+      have : ndigits c ≤ 20 := (ndigits_le_iff hc0).2 h20
+      show ((20 : Nat) : Int) = _
+      omega
+    · rw [if_neg (by simpa using h20)]
+      have hres' : res.w1.toNat * 2 ^ 64 + res.w0.toNat = c := hres
+      rw [count128, hres']
+      simp only []
+      have hN21 : 21 ≤ ndigits c := by
+        have : 20 < ndigits c := (lt_ndigits_iff hc0).2 (by omega)
+        omega
+      refine ⟨_, rfl, ?_⟩
+      have e : min 19 (max (ndigits c - 20) 1) - 1 = ndigits c - 21 := by omega
+      rw [e]
+      have a1 := i32_add' _ 1 ((ndigits c - 21 : Nat) : Int) 1 (ofIdx _ (by omega)) rfl (by omega) (by omega)
+      rw [i32_add' _ 0x14 _ 20 a1 rfl (by omega) (by omega)]
+      omega
+
+
+open Dec.RH (Ind)
+open Dec.Rs Dec.Gen.Code
+open Dec.C03GenCompare (val128 val256)
+open Dec.C02RoundHelpers (Spec rne)
+open Dec.C02GenRound (v128)
+
+set_option maxHeartbeats 1000000 in
+/-- **below the least exponent: `x0 = emin − e3` more digits removed** from the `ind`-digit `res`; for `x0 = ind` the result
+is one unit with "rounded up" -/
+theorem uRoundK_spec {α : Type} (res : U128) (ind x0 : Int32) (incr : Bool) (R64 : UInt64) (P128 : U128)
+    (k : U128 → Bool → Bool → Bool → Bool → Bool → UInt64 → U128 → Except String α)
+    (c N X : Nat) (hres : val128 res = c) (hind : ind.toInt = N) (hx : x0.toInt = X) (hN : N = ndigits c) (hc0 : 0 < c)
+    (hN38 : N ≤ 38) (hX1 : 1 ≤ X) (hXN : X ≤ N) :
+    ∃ (r : U128) (ML MG L G incr' : Bool) (R64' : UInt64) (P' : U128),
+      uRoundK res ind x0 false false false false incr R64 P128 k = k r ML MG L G incr' R64' P' ∧
+      ((X = N ∧ val128 r = 1 ∧ (⟨ML, MG, L, G⟩ : Ind) = fG) ∨ (X < N ∧ NE c (10 ^ X) (val128 r) ⟨ML, MG, L, G⟩)) := by
+  have hcN : c < 10 ^ N := by rw [hN]; exact lt_pow_ndigits c
+  unfold uRoundK
+  simp only [bind, Except.bind, pure, Except.pure]
+  by_cases hXeq : X = N
+  · rw [if_pos (by rw [i32_beq, hx, hind, decide_eq_true_eq, hXeq])]
+    exact ⟨_, _, _, _, _, _, _, _, rfl, Or.inl ⟨hXeq, by decide, rfl⟩⟩
+  rw [if_neg (by rw [i32_beq, hx, hind, decide_eq_true_eq]; omega)]
+  have hXN' : X + 1 ≤ N := by omega
+  have hqe := i32_ofNat_eq ind N hind
+  have hxe := i32_ofNat_eq x0 X hx
+  have hd : (ind - x0).toInt = ((N - X : Nat) : Int) := by
+    rw [i32_sub' ind x0 N X hind hx (by omega) (by omega)]; omega
+  have hdle : decide (ind - x0 ≤ (0x13 : Int32)) = decide (N - X ≤ 19) := by
+    rw [i32_le, hd, decide_eq_decide]; show ((N - X : Nat) : Int) ≤ 19 ↔ _; omega
+  by_cases h18 : N ≤ 18
+  · rw [if_pos (by rw [i32_le, hind, decide_eq_true_eq]; show (N : Int) ≤ 18; omega)]
+    have hw0 : res.w0.toNat = c := by
+      have : c < 10 ^ 18 := lt_of_lt_of_le hcN (Nat.pow_le_pow_right (by decide) h18)
+      have : (10 : Nat) ^ 18 < 2 ^ 64 := by decide
+      have := res.w0.toNat_lt
+      unfold val128 at hres; omega
+    obtain ⟨cs, ic, lt, gt, ilt, igt, hcall, sp⟩ := Dec.C02GenRound.bid_round64_2_18_spec N X res.w0 (by omega) h18 hX1 hXN'
+      (by rw [hw0]; exact hcN)
+    rw [r64_incr, hqe, hxe, hcall]
+    simp only []
+    rw [hw0] at sp
+    obtain ⟨u1, u2⟩ := spec_undo sp hXN'
+    have hne := spec_NE N X c _ ic ⟨lt, gt, ilt, igt⟩ sp hX1
+    cases ic
+    · simp only [Bool.false_eq_true, if_false]
+      refine ⟨_, _, _, _, _, _, _, _, rfl, Or.inr ⟨by omega, ?_⟩⟩
+      have : val128 (⟨cs, 0⟩ : U128) = rne c X := by
+        unfold val128; simp only [UInt64.toNat_zero]; rw [u2 rfl]; omega
+      rw [this]; exact hne
+    · simp only [if_true]
+      obtain ⟨v, hv, hv10⟩ := ten64 (Int32.ofNat N - Int32.ofNat X) (N - X) (by rw [← hqe, ← hxe]; exact hd) (by omega)
+      rw [hv]
+      simp only []
+      refine ⟨_, _, _, _, _, _, _, _, rfl, Or.inr ⟨by omega, ?_⟩⟩
+      have : val128 (⟨v, 0⟩ : U128) = rne c X := by
+        unfold val128; simp only [UInt64.toNat_zero]; rw [hv10, (u1 rfl).2]; omega
+      rw [this]; exact hne
+  rw [if_neg (by rw [i32_le, hind, decide_eq_true_eq]; show ¬ (N : Int) ≤ 18; omega)]
+  rw [if_pos (by rw [i32_le, hind, decide_eq_true_eq]; show (N : Int) ≤ 38; omega)]
+  have hv2 : v128 (⟨res.w0, res.w1⟩ : U128) = c := by rw [v128_val]; exact hres
+  obtain ⟨cs, ic, lt, gt, ilt, igt, hcall, sp⟩ := Dec.C02GenRound.bid_round128_19_38_spec N X ⟨res.w0, res.w1⟩ (by omega) hN38 hX1 hXN'
+    (by rw [hv2]; exact hcN)
+  rw [r128_incr, hqe, hxe, hcall]
+  simp only []
+  rw [hv2, v128_val] at sp
+  obtain ⟨u1, u2⟩ := spec_undo sp hXN'
+  have hne := spec_NE N X c _ ic ⟨lt, gt, ilt, igt⟩ sp hX1
+  cases ic
+  · simp only [Bool.false_eq_true, if_false]
+    refine ⟨_, _, _, _, _, _, _, _, rfl, Or.inr ⟨by omega, ?_⟩⟩
+    rw [u2 rfl]; exact hne
+  · simp only [if_true]
+    rw [← hqe, ← hxe, hdle]
+    have hw : cs.w1.toNat * 2 ^ 64 + cs.w0.toNat = 10 ^ (N - X - 1) := (u1 rfl).1
+    have hr := (u1 rfl).2
+    by_cases h19 : N - X ≤ 19
+    · obtain ⟨v, hv, hv10⟩ := ten64 (ind - x0) (N - X) hd h19
+      rw [if_pos (by simpa using h19), hv]
+      simp only []
+      refine ⟨_, _, _, _, _, _, _, _, rfl, Or.inr ⟨by omega, ?_⟩⟩
+      have : 10 ^ (N - X - 1) ≤ 10 ^ 18 := Nat.pow_le_pow_right (by decide) (by omega)
+      have : (10 : Nat) ^ 18 < 2 ^ 64 := by decide
+      have hw1 : cs.w1.toNat = 0 := by have := cs.w0.toNat_lt; omega
+      have : val128 (⟨v, cs.w1⟩ : U128) = rne c X := by
+        unfold val128; simp only []; rw [hw1, hv10, hr, Nat.zero_mul, Nat.zero_add]
+      rw [this]; exact hne
+    · obtain ⟨v, hv, hv10⟩ := ten128 (ind - x0) (N - X) hd (by omega) (by omega)
+      rw [if_neg (by simpa using h19), hv]
+      simp only []
+      refine ⟨_, _, _, _, _, _, _, _, rfl, Or.inr ⟨by omega, ?_⟩⟩
+      have : val128 (⟨v.w0, v.w1⟩ : U128) = rne c X := by rw [hr, ← hv10]
+      rw [this]; exact hne
+
+
+open Dec.RH (Ind)
+open Dec.Rs Dec.Gen.Code
+open Dec.C03GenCompare (val128 val256)
+open Dec.C02GenCorrection (modeOf)
+
+/-! ## 11. The stages composed -/
+
+/-- the loop state -/
+abbrev LSt := Bool × Bool × Bool × Bool × UInt32 × U128 × UInt64 × Int32 × Int32 × Int32 × Int32 × Bool × Bool × Bool × Bool × Bool × Bool × Bool × Bool × Bool × Bool × Bool × UInt64 × UInt64 × U128 × U128 × U192 × U192 × U256
+/-- what a turn of the loop returns -/
+abbrev StepT := ForInStep (Option (U128 × Bool × Bool × Bool × Bool × UInt32) × LSt)
+
+/-- the turn ends the routine with the result word `w` and the status word `pf` -/
+def Done (x : Except String StepT) (w : U128) (pf : UInt32) : Prop :=
+  ∃ (a b c d : Bool) (st : LSt), x = .ok (ForInStep.done (some (w, a, b, c, d, pf), st))
+
+/-- what the specification says the block returns for the exact value `±V·10^m` (preferred exponent `m`) -/
+def specW (rm : RoundingMode) (s : Bool) (V : Nat) (m : Int) : U128 :=
+  Dec.C17GenNext.ofBits (encode (finish (modeOf rm) s V 1 m m).1)
+def specF (rm : RoundingMode) (s : Bool) (V : Nat) (m : Int) (pf : UInt32) : UInt32 :=
+  pf ||| UInt32.ofNat (finish (modeOf rm) s V 1 m m).2
+
+/-- **the final stage ends the routine with the specified result** -/
+theorem finalK_done (p1 p2 p3 p4 : Bool) (rm : RoundingMode) (pf : UInt32) (res : U128) (zs : UInt64)
+    (e3 scale ind x0 : Int32) (ML MG L G ML0 MG0 L0 G0 incr lsb tiny : Bool) (R64 tmp64 : UInt64)
+    (P128 R128 : U128) (P192 R192 : U192) (R256 : U256)
+    (s : Bool) (V : Nat) (m : Int) (c : Nat) (Ec : Int)
+    (hres : val128 res = c) (he3 : e3.toInt = Ec) (hzs : zs.toNat = (if s = true then 1 else 0) * 2^63)
+    (hV : 0 < V) (hmx : m ≤ eMax) (hEc : -6176 ≤ Ec ∧ Ec ≤ 6112)
+    (hpre : FinalPre V m c Ec ML MG L G tiny) :
+    Done (finalK p1 p2 p3 p4 rm pf res zs e3 scale ind x0 ML MG L G ML0 MG0 L0 G0 incr lsb tiny R64 tmp64 P128 R128 P192 R192 R256)
+      (specW rm s V m) (specF rm s V m pf) := by
+  rw [finalK_eq, finalN_spec rm pf res zs e3 ML MG L G tiny s V m c Ec hres he3 hzs hV hmx hEc hpre]
+  exact ⟨_, _, _, _, _, rfl⟩
+
+
+theorem i32_emin : c_EXP_MIN_UNBIASED.toInt = -6176 := rfl
+
+theorem ndigits_ge_of_nine (c X : Nat) (hX : 1 ≤ X) (h : 9 * 10 ^ (X - 1) ≤ c) : X ≤ ndigits c := by
+  have hp : 0 < 10 ^ (X - 1) := Nat.pow_pos (by decide)
+  have hc0 : 0 < c := by omega
+  have : X - 1 < ndigits c := (lt_ndigits_iff hc0).2 (by omega)
+  omega
+
+theorem ndigits_le35 (c : Nat) (hc0 : 0 < c) (h : c ≤ P34) : ndigits c ≤ 35 ∧ c < 10 ^ 38 := by
+  have e34 : P34 = 10 ^ 34 := by decide
+  have : c < 10 ^ 35 := by rw [e34] at h; have : (10:Nat) ^ 34 < 10 ^ 35 := by norm_num
+                           omega
+  exact ⟨(ndigits_le_iff hc0).2 this, lt_trans this (by norm_num)⟩
+
+
+/-! ### the piece specifications as rules: to show `Q` of a piece with continuation `k`, show `Q` of `k` on what the piece
+hands on -/
+
+theorem ndigK_rule {α : Type} (Q : Except String α → Prop) (res : U128) (ind : Int32) (k : Int32 → Except String α) (c : Nat)
+    (hres : val128 res = c) (hc0 : 0 < c) (hc : c < 10 ^ 38) (h : ∀ i : Int32, i.toInt = ndigits c → Q (k i)) :
+    Q (ndigK res ind k) := by
+  obtain ⟨i, hi, hiv⟩ := ndigK_spec res ind k c hres hc0 hc
+  rw [hi]; exact h i hiv
+
+theorem uRoundK_rule {α : Type} (Q : Except String α → Prop) (res : U128) (ind x0 : Int32) (incr : Bool) (R64 : UInt64) (P128 : U128)
+    (k : U128 → Bool → Bool → Bool → Bool → Bool → UInt64 → U128 → Except String α)
+    (c N X : Nat) (hres : val128 res = c) (hind : ind.toInt = N) (hx : x0.toInt = X) (hN : N = ndigits c) (hc0 : 0 < c)
+    (hN38 : N ≤ 38) (hX1 : 1 ≤ X) (hXN : X ≤ N)
+    (h : ∀ (r : U128) (ML MG L G incr' : Bool) (R64' : UInt64) (P' : U128),
+      ((X = N ∧ val128 r = 1 ∧ (⟨ML, MG, L, G⟩ : Ind) = fG) ∨ (X < N ∧ NE c (10 ^ X) (val128 r) ⟨ML, MG, L, G⟩)) →
+      Q (k r ML MG L G incr' R64' P')) :
+    Q (uRoundK res ind x0 false false false false incr R64 P128 k) := by
+  obtain ⟨r, ML, MG, L, G, incr', R64', P', hr, hcase⟩ := uRoundK_spec res ind x0 incr R64 P128 k c N X hres hind hx hN hc0 hN38 hX1 hXN
+  rw [hr]; exact h r ML MG L G incr' R64' P' hcase
+
+set_option maxRecDepth 20000 in
+set_option maxHeartbeats 1000000 in
+/-- **the underflow check and the final stage**: from what the main stage establishes of its state to the specified result -/
+theorem uflowRest_spec (p1 p2 p3 p4 : Bool) (rm : RoundingMode) (pf : UInt32) (res : U128) (zs : UInt64)
+    (e3 scale ind x0 : Int32) (ML MG L G ML0 MG0 L0 G0 incr lsb : Bool) (R64 tmp64 : UInt64)
+    (P128 R128 : U128) (P192 R192 : U192) (R256 : U256)
+    (s : Bool) (V : Nat) (m : Int) (c : Nat) (Ec : Int)
+    (hres : val128 res = c) (he3 : e3.toInt = Ec) (hzs : zs.toNat = (if s = true then 1 else 0) * 2^63)
+    (hV : 0 < V) (hmx : m ≤ eMax) (hEc : -6300 ≤ Ec ∧ Ec ≤ 6112) (hc0 : 0 < c) (hc34 : c ≤ P34)
+    (hmo : MainOut V m c Ec ⟨ML, MG, L, G⟩) :
+    Done (uflowRestLit p1 p2 p3 p4 rm pf res zs e3 scale ind x0 ML MG L G ML0 MG0 L0 G0 incr lsb false R64 tmp64 P128 R128 P192 R192 R256)
+      (specW rm s V m) (specF rm s V m pf) := by
+  have hMin : eMin = -6176 := rfl
+  have hP : P34 < 2 ^ 113 := by decide
+  rw [uflowRestLit_eq]
+  simp only []
+  by_cases hE1 : Ec = -6176
+  · -- the least exponent: the tiny test
+    rw [if_pos (by rw [i32_beq, he3, i32_emin, decide_eq_true_eq]; exact hE1)]
+    rw [tinyK_spec res ML G false e3 _ c hres (by omega)]
+    have hpre := hmo.final_eq (by omega)
+    refine finalK_done _ _ _ _ rm pf res zs e3 scale ind x0 ML MG L G ML0 MG0 L0 G0 incr lsb _ R64 tmp64 P128 R128 P192 R192 R256
+      s V m c Ec hres he3 hzs hV hmx (by omega) ?_
+    have : (false || (decide (c < P33) || (decide (c = P33) && (G || ML)))) = tinyAt c ⟨ML, MG, L, G⟩ := by
+      unfold tinyAt; simp only [Bool.false_or]
+    rw [this]; exact hpre
+  rw [if_neg (by rw [i32_beq, he3, i32_emin, decide_eq_true_eq]; exact hE1)]
+  by_cases hE2 : Ec < -6176
+  · -- below the least exponent: more digits go
+    rw [if_pos (by rw [i32_lt, he3, i32_emin, decide_eq_true_eq]; exact hE2)]
+    have hup := hmo.lt (by omega)
+    rw [uPrepK_eq]
+    have hX : (c_EXP_MIN_UNBIASED - e3).toInt = (((eMin - Ec).toNat : Nat) : Int) := by
+      rw [i32_sub' _ _ (-6176) Ec i32_emin he3 (by omega) (by omega)]; omega
+    have hX1 : 1 ≤ (eMin - Ec).toNat := by omega
+    obtain ⟨hN35, hc38⟩ := ndigits_le35 c hc0 hc34
+    have hXN := ndigits_ge_of_nine c _ hX1 hup.dig
+    refine ndigK_rule (fun x => Done x (specW rm s V m) (specF rm s V m pf)) res ind _ c hres hc0 hc38 (fun i hiv => ?_)
+    have hN38 : ndigits c ≤ 38 := by omega
+    refine uRoundK_rule (fun x => Done x (specW rm s V m) (specF rm s V m pf)) res i (c_EXP_MIN_UNBIASED - e3) incr R64 P128 _ c (ndigits c)
+      (eMin - Ec).toNat hres hiv hX rfl hc0 hN38 hX1 hXN ?_
+    intro r ML' MG' L' G' incr' R64' P' hcase
+    rw [dblFixK_eq, uTailK_eq]
+    have hE' : (e3 + (c_EXP_MIN_UNBIASED - e3)).toInt = -6176 := by
+      rw [i32_add' e3 _ Ec _ he3 hX (by omega) (by omega)]; omega
+    rcases hcase with ⟨hXeq, hr1, hfl⟩ | ⟨hXlt, hne⟩
+    · -- all digits go: one unit
+      have hcX : c < 10 ^ (eMin - Ec).toNat := by rw [hXeq]; exact lt_pow_ndigits c
+      obtain ⟨hpre, hd1, ht1⟩ := U_one V m c Ec ⟨ML, MG, L, G⟩ hup hcX
+      obtain ⟨rfl, rfl, rfl, rfl⟩ := Ind.mk.inj hfl
+      have hflags : (dblFix 0 ⟨ML, MG, L, G⟩ ⟨false, false, false, true⟩).2 = fG := by
+        rw [dblFix_snd 0 1]; exact congrArg Prod.snd hd1
+      have hval : val128 (dblFixW r ⟨ML, MG, L, G⟩ ⟨false, false, false, true⟩) = 1 := by
+        rw [dblFixW_val r _ _ (by omega) (by omega), hr1]; exact congrArg Prod.fst hd1
+      have htl : (tailFix ⟨ML, MG, L, G⟩ ⟨(dblFix 0 ⟨ML, MG, L, G⟩ ⟨false, false, false, true⟩).2.midLtEven,
+          (dblFix 0 ⟨ML, MG, L, G⟩ ⟨false, false, false, true⟩).2.midGtEven, (dblFix 0 ⟨ML, MG, L, G⟩ ⟨false, false, false, true⟩).2.inexLtMid,
+          (dblFix 0 ⟨ML, MG, L, G⟩ ⟨false, false, false, true⟩).2.inexGtMid⟩).inexLtMid = false := by
+        rw [show (⟨(dblFix 0 ⟨ML, MG, L, G⟩ ⟨false, false, false, true⟩).2.midLtEven,
+          (dblFix 0 ⟨ML, MG, L, G⟩ ⟨false, false, false, true⟩).2.midGtEven, (dblFix 0 ⟨ML, MG, L, G⟩ ⟨false, false, false, true⟩).2.inexLtMid,
+          (dblFix 0 ⟨ML, MG, L, G⟩ ⟨false, false, false, true⟩).2.inexGtMid⟩ : Ind) = (dblFix 0 ⟨ML, MG, L, G⟩ ⟨false, false, false, true⟩).2 from rfl,
+          hflags, ht1]; rfl
+      rw [htl, hflags]
+      exact finalK_done _ _ _ _ rm pf _ zs _ scale i _ _ _ _ _ ML MG L G incr' lsb true R64' tmp64 P' R128 P192 R192 R256
+        s V m 1 eMin hval hE' hzs hV hmx (by decide) hpre
+    · -- the regular second rounding
+      obtain ⟨hpre, ht1⟩ := U_round V m c Ec ⟨ML, MG, L, G⟩ hup (val128 r) ⟨ML', MG', L', G'⟩ hne
+      have hc2 : 1 ≤ val128 r := by
+        rcases Nat.eq_zero_or_pos (val128 r) with h0 | h0
+        · exfalso
+          have hn := hne.near.1
+          rw [h0, Nat.zero_mul] at hn
+          have hd := hup.dig
+          obtain ⟨j, hj⟩ : ∃ j, (eMin - Ec).toNat = j + 1 := ⟨(eMin - Ec).toNat - 1, by omega⟩
+          rw [hj, Nat.add_sub_cancel] at hd
+          rw [hj, Nat.pow_succ] at hn
+          omega
+        · exact h0
+      have hc2hi : val128 r + 1 < 2 ^ 128 := by
+        have hn := hne.near.1
+        have hp : 1 ≤ 10 ^ (eMin - Ec).toNat := Nat.pow_pos (by decide)
+        have : val128 r * 1 ≤ val128 r * 10 ^ (eMin - Ec).toNat := Nat.mul_le_mul_left _ hp
+        have : (2:Nat) ^ 113 < 2 ^ 128 - 2 := by decide
+        have hn2 := hne.near.2
+        by_contra hcon
+        have h3 : 2 ^ 113 ≤ val128 r * 10 ^ (eMin - Ec).toNat := by omega
+        have : 10 ^ (eMin - Ec).toNat ≤ val128 r * 10 ^ (eMin - Ec).toNat := Nat.le_mul_of_pos_left _ hc2
+        omega
+      have hval : val128 (dblFixW r ⟨ML, MG, L, G⟩ ⟨ML', MG', L', G'⟩) = (dblFix (val128 r) ⟨ML, MG, L, G⟩ ⟨ML', MG', L', G'⟩).1 :=
+        dblFixW_val r _ _ hc2 hc2hi
+      rw [dblFix_snd 0 (val128 r)]
+      have htl : (tailFix ⟨ML, MG, L, G⟩ ⟨(dblFix (val128 r) ⟨ML, MG, L, G⟩ ⟨ML', MG', L', G'⟩).2.midLtEven,
+          (dblFix (val128 r) ⟨ML, MG, L, G⟩ ⟨ML', MG', L', G'⟩).2.midGtEven, (dblFix (val128 r) ⟨ML, MG, L, G⟩ ⟨ML', MG', L', G'⟩).2.inexLtMid,
+          (dblFix (val128 r) ⟨ML, MG, L, G⟩ ⟨ML', MG', L', G'⟩).2.inexGtMid⟩).inexLtMid =
+          (dblFix (val128 r) ⟨ML, MG, L, G⟩ ⟨ML', MG', L', G'⟩).2.inexLtMid := by
+        rw [show (⟨(dblFix (val128 r) ⟨ML, MG, L, G⟩ ⟨ML', MG', L', G'⟩).2.midLtEven,
+          (dblFix (val128 r) ⟨ML, MG, L, G⟩ ⟨ML', MG', L', G'⟩).2.midGtEven, (dblFix (val128 r) ⟨ML, MG, L, G⟩ ⟨ML', MG', L', G'⟩).2.inexLtMid,
+          (dblFix (val128 r) ⟨ML, MG, L, G⟩ ⟨ML', MG', L', G'⟩).2.inexGtMid⟩ : Ind) = (dblFix (val128 r) ⟨ML, MG, L, G⟩ ⟨ML', MG', L', G'⟩).2 from rfl,
+          ht1]
+      rw [htl]
+      exact finalK_done _ _ _ _ rm pf _ zs _ scale i _ _ _ _ _ ML MG L G incr' lsb true R64' tmp64 P' R128 P192 R192 R256
+        s V m _ eMin hval hE' hzs hV hmx (by decide) hpre
+  · -- above the least exponent
+    rw [if_neg (by rw [i32_lt, he3, i32_emin, decide_eq_true_eq]; exact hE2)]
+    exact finalK_done _ _ _ _ rm pf res zs e3 scale ind x0 ML MG L G ML0 MG0 L0 G0 incr lsb false R64 tmp64 P128 R128 P192 R192 R256
+      s V m c Ec hres he3 hzs hV hmx (by omega) (hmo.final_gt (by omega))
+
+
+open Dec.RH (Ind)
+open Dec.Rs Dec.Gen.Code
+open Dec.C03GenCompare (val128 val256)
+open Dec.C02GenCorrection (modeOf)
+
+/-! ## 12. Interfaces: what the loop needs from the set-up of the cases, and the block's entry invariant -/
+
+/-- **what the loop needs to know on entry** (after `setupK`): `c3 = C3` with `S = scale` zeros to append, `c4 = C4` (in Case (6)
+already scaled) of which `X = x0` digits go, `E0 = e3`; `same`: the signs of product and addend agree; `V·10^m` is the exact
+magnitude of the result (`m` the smaller exponent) -/
+structure LoopPre (c3 c4 S X : Nat) (E0 : Int) (same : Bool) (m : Int) (V : Nat) : Prop where
+  hc3 : 0 < c3
+  hS : ndigits c3 + S ≤ 34
+  hc4 : 0 < c4
+  hQ4 : ndigits c4 ≤ 68
+  hX : X = 0 ∨ X + 1 ≤ ndigits c4
+  hfit : ndigits c4 - X ≤ 34
+  h58 : 58 ≤ ndigits c4 → 1 ≤ X → 21 ≤ X
+  h128 : X = 0 → c4 < P34
+  hE0 : -6176 ≤ E0 ∧ E0 ≤ 6111
+  hm : m + X = E0 - S
+  hx33 : X = 0 ∨ ndigits c3 + S = 34
+  hV : V = if same = true then c3 * 10 ^ S * 10 ^ X + c4 else c3 * 10 ^ S * 10 ^ X - c4
+  hdom : same = false → 10 * c4 < c3 * 10 ^ S * 10 ^ X
+
+/-- **the entry invariant of the block** (after the front end of `bid128_ext_fma`): `z = ±c3·10^E3` with `q3` digits, the exact
+product `±c4·10^E4` with `q4` digits, `delta = q3 + e3 − q4 − e4` in `[0, 33]` (larger `delta` went to Cases (1)), the sign
+words, `p34 = 34` -/
+structure EntryInv (C3 : U128) (C4 : U256) (q3 q4 e3 e4 delta p34 : Int32) (z_sign p_sign : UInt64)
+    (c3 c4 : Nat) (E3 E4 : Int) (sz sp : Bool) : Prop where
+  hC3 : val128 C3 = c3
+  hc3 : 0 < c3 ∧ c3 < P34
+  hq3 : q3.toInt = ndigits c3
+  he3 : e3.toInt = E3
+  hE3 : -6176 ≤ E3 ∧ E3 ≤ 6111
+  hC4 : val256 C4 = c4
+  hc4 : 0 < c4 ∧ c4 < P34 * P34
+  hq4 : q4.toInt = ndigits c4
+  he4 : e4.toInt = E4
+  hE4 : -12352 ≤ E4 ∧ E4 ≤ 12222
+  hdelta : delta.toInt = (ndigits c3 : Int) + E3 - ndigits c4 - E4
+  hdr : 0 ≤ delta.toInt ∧ delta.toInt ≤ 33
+  hp34 : p34.toInt = 34
+  hzs : z_sign.toNat = (if sz = true then 1 else 0) * 2 ^ 63
+  hps : p_sign.toNat = (if sp = true then 1 else 0) * 2 ^ 63
+
+
+open Dec.RH (Ind)
+open Dec.Rs Dec.Gen.Code
+open Dec.C03GenCompare (val128 val256)
+open Dec.C02GenCorrection (modeOf)
+
+theorem sameAddK_rule {α : Type} (Q : Except String α → Prop) (res : U128) (lsb : Bool) (R128 : U128)
+    (k : U128 → Bool → Except String α) (h : val128 res + val128 R128 < 2 ^ 128)
+    (hk : ∀ r : U128, val128 r = val128 res + val128 R128 → Q (k r (decide (val128 res % 2 = 1)))) :
+    Q (sameAddK res lsb R128 k) := by
+  obtain ⟨r, hr, hv⟩ := sameAddK_spec res lsb R128 k h
+  rw [hr]; exact hk r hv
+
+theorem diffSubK_rule {α : Type} (Q : Except String α → Prop) (res : U128) (lsb : Bool) (tmp64 : UInt64) (R128 : U128)
+    (k : U128 → Bool → UInt64 → Except String α) (h : val128 R128 ≤ val128 res)
+    (hk : ∀ (r : U128) (t : UInt64), val128 r = val128 res - val128 R128 → Q (k r (decide (val128 res % 2 = 1)) t)) :
+    Q (diffSubK res lsb tmp64 R128 k) := by
+  obtain ⟨r, t, hr, hv⟩ := diffSubK_spec res lsb tmp64 R128 k h
+  rw [hr]; exact hk r t hv
+
+theorem same35K_rule {α : Type} (Q : Except String α → Prop) (res : U128) (ML MG L G ML0 MG0 L0 G0 incr : Bool) (P128 : U128)
+    (k : U128 → Bool → Bool → Bool → Bool → Bool → Bool → Bool → Bool → Bool → U128 → Except String α)
+    (c1 : Nat) (hres : val128 res = c1) (hlo : P34 ≤ c1) (hhi : c1 < 2 * P34)
+    (hk : ∀ (r : U128) (ML' MG' L' G' incr' : Bool) (P' : U128), NE c1 (10 ^ 1) (val128 r) ⟨ML', MG', L', G'⟩ →
+      Q (k r ML' MG' L' G' ML MG L G incr' P')) :
+    Q (same35K res ML MG L G ML0 MG0 L0 G0 incr P128 k) := by
+  obtain ⟨r, ML', MG', L', G', incr', P', hr, hne⟩ := same35K_spec res ML MG L G ML0 MG0 L0 G0 incr P128 k c1 hres hlo hhi
+  rw [hr]; exact hk r ML' MG' L' G' incr' P' hne
+
+
+theorem sameLsbK_rule (Q : Except String StepT → Prop) (p1 p2 p3 p4 : Bool) (rnd_mode : RoundingMode) (pfpsf : UInt32) (res : U128)
+    (z_sign : UInt64) (e3 scale ind x0 : Int32) (ML MG L G ML0 MG0 L0 G0 incr_exp lsb is_tiny : Bool) (R64 tmp64 : UInt64)
+    (P128 R128 : U128) (P192 R192 : U192) (R256 : U256)
+    (k : Bool → Bool → Bool → Bool → U128 → UInt64 → Int32 → Bool → Bool → Except String StepT)
+    (c1 : Nat) (E : Int) (hres : val128 res = c1) (hc1 : c1 ≤ P34 - 1) (he3 : e3.toInt = E) (hE : -2^30 < E ∧ E < 2^30)
+    (hnz : 1 ≤ (lsbFixSame lsb c1 ⟨ML, MG, L, G⟩).1)
+    (hk : ∀ (r : U128) (e3' : Int32),
+      (lsbFixSame lsb c1 ⟨ML, MG, L, G⟩).2.inexLtMid = L → (lsbFixSame lsb c1 ⟨ML, MG, L, G⟩).2.inexGtMid = G →
+      ((val128 r = (lsbFixSame lsb c1 ⟨ML, MG, L, G⟩).1 ∧ e3'.toInt = E ∧ (lsbFixSame lsb c1 ⟨ML, MG, L, G⟩).1 ≠ P34) ∨
+       ((lsbFixSame lsb c1 ⟨ML, MG, L, G⟩).1 = P34 ∧ val128 r = P33 ∧ e3'.toInt = E + 1)) →
+      Q (k p1 p2 p3 p4 r z_sign e3' (lsbFixSame lsb c1 ⟨ML, MG, L, G⟩).2.midLtEven (lsbFixSame lsb c1 ⟨ML, MG, L, G⟩).2.midGtEven)) :
+    Q (sameLsbK p1 p2 p3 p4 rnd_mode pfpsf res z_sign e3 scale ind x0 ML MG L G ML0 MG0 L0 G0 incr_exp lsb is_tiny R64 tmp64
+          P128 R128 P192 R192 R256 k) := by
+  obtain ⟨r, e3', hr, a, b, c⟩ := sameLsbK_spec p1 p2 p3 p4 rnd_mode pfpsf res z_sign e3 scale ind x0 ML MG L G ML0 MG0 L0 G0
+    incr_exp lsb is_tiny R64 tmp64 P128 R128 P192 R192 R256 k c1 E hres hc1 he3 hE hnz
+  rw [hr]; exact hk r e3' a b c
+
+theorem ind_eta (x : Ind) (L G : Bool) (a : x.inexLtMid = L) (b : x.inexGtMid = G) :
+    (⟨x.midLtEven, x.midGtEven, L, G⟩ : Ind) = x := by
+  cases x; simp only at a b; subst a b; rfl
+
+theorem dec_odd (A : Nat) : (decide (A % 2 = 1) = true ↔ A % 2 = 1) := by simp
+
+set_option maxRecDepth 20000 in
+set_option maxHeartbeats 1000000 in
+/-- **same signs: from the sum to the result** -/
+theorem sumRest_same (p1 p2 p3 p4 : Bool) (rm : RoundingMode) (pf : UInt32) (res : U128) (zs ps : UInt64)
+    (e3 scale ind x0 : Int32) (ML MG L G ML0 MG0 L0 G0 incr lsb : Bool) (R64 tmp64 : UInt64)
+    (P128 R128 : U128) (P192 R192 : U192) (R256 : U256)
+    (s : Bool) (A T X : Nat) (E m : Int) (C4 R : Nat)
+    (hsame : (zs == ps) = true) (ctx : Ctx A T X E m) (hA34 : A < P34) (hres : val128 res = A) (hR : val128 R128 = R)
+    (hR34 : R ≤ P34) (h1 : NE C4 T R ⟨ML, MG, L, G⟩) (he3 : e3.toInt = E)
+    (hzs : zs.toNat = (if s = true then 1 else 0) * 2^63) (hmx : m ≤ eMax) (hElo : -6300 ≤ E) :
+    Done (sumRestLit p1 p2 p3 p4 rm pf res zs ps e3 scale ind x0 ML MG L G ML0 MG0 L0 G0 incr lsb false R64 tmp64 P128 R128 P192 R192 R256)
+      (specW rm s (A * T + C4) m) (specF rm s (A * T + C4) m pf) := by
+  have e34 : P34 = 10000000000000000000000000000000000 := rfl
+  have e33 : P33 = 1000000000000000000000000000000000 := rfl
+  have hT0 : 0 < T := by rw [ctx.hT]; exact Nat.pow_pos (by decide)
+  have hA0 := ctx.hA0
+  have hEhi := ctx.hE
+  have hV : 0 < A * T + C4 := by have := Nat.mul_pos hA0 hT0; omega
+  rw [sumRestLit_eq, if_pos hsame]
+  refine sameAddK_rule (fun x => Done x _ _) res lsb R128 _ (by rw [hres, hR]; omega) (fun r hr => ?_)
+  rw [hres, hR] at hr
+  try simp only []
+  rw [gt_p34m1, hr, hres]
+  by_cases hbig : P34 - 1 < A + R
+  · -- 35 digits
+    rw [if_pos (by simpa using hbig)]
+    refine same35K_rule (fun x => Done x _ _) r ML MG L G ML0 MG0 L0 G0 incr P128 _ (A + R) hr (by omega) (by omega)
+      (fun r2 ML' MG' L' G' incr' P' hne => ?_)
+    try simp only []
+    rw [dblFixK_eq, sameTailK_eq]
+    obtain ⟨hmo, htl⟩ := exit_same35 ctx hA34 C4 R ⟨ML, MG, L, G⟩ h1 hR34 (by omega) (val128 r2) ⟨ML', MG', L', G'⟩ hne
+    have n2 := hne.near
+    rw [show (10:Nat) ^ 1 = 10 from rfl] at n2
+    have hc2 : P33 ≤ val128 r2 ∧ val128 r2 ≤ 2 * P33 := by omega
+    have hval := dblFixW_val r2 ⟨ML, MG, L, G⟩ ⟨ML', MG', L', G'⟩ (by omega) (by omega)
+    have hdis := dblFix_fst (val128 r2) ⟨ML, MG, L, G⟩ ⟨ML', MG', L', G'⟩
+    rw [dblFix_snd 0 (val128 r2)]
+    generalize hD : dblFix (val128 r2) ⟨ML, MG, L, G⟩ ⟨ML', MG', L', G'⟩ = D at *
+    have htl' : (tailFix ⟨ML, MG, L, G⟩ ⟨D.2.midLtEven, D.2.midGtEven, D.2.inexLtMid, D.2.inexGtMid⟩).inexLtMid = D.2.inexLtMid := by
+      rw [show (⟨D.2.midLtEven, D.2.midGtEven, D.2.inexLtMid, D.2.inexGtMid⟩ : Ind) = D.2 from rfl, htl]
+    rw [htl']
+    have he3' : (e3 + 1).toInt = E + 1 := Dec.C02GenCorrection.i32_add1 e3 E he3 (by omega) (by omega)
+    have hEb : -6300 ≤ E + 1 ∧ E + 1 ≤ 6112 := by omega
+    have hcp : 0 < D.1 := by omega
+    have hc34' : D.1 ≤ P34 := by omega
+    have hmo' : MainOut (A * T + C4) m D.1 (E + 1) ⟨D.2.midLtEven, D.2.midGtEven, D.2.inexLtMid, D.2.inexGtMid⟩ := hmo
+    exact uflowRest_spec p1 p2 p3 p4 rm pf (dblFixW r2 ⟨ML, MG, L, G⟩ ⟨ML', MG', L', G'⟩) zs (e3 + 1) scale ind x0 D.2.midLtEven
+      D.2.midGtEven D.2.inexLtMid D.2.inexGtMid ML MG L G incr' (decide (A % 2 = 1)) R64 tmp64 P' R128 P192 R192 R256
+      s (A * T + C4) m D.1 (E + 1) hval he3' hzs hV hmx hEb hcp hc34' hmo'
+  · -- at most 34 digits
+    rw [if_neg (by simpa using hbig)]
+    have hl := dec_odd A
+    have hnz := lsbFixSame_pos h1 hT0 hA0 (decide (A % 2 = 1)) hl
+    refine sameLsbK_rule (fun x => Done x _ _) p1 p2 p3 p4 rm pf r zs e3 scale ind x0 ML MG L G ML0 MG0 L0 G0 incr
+      (decide (A % 2 = 1)) false R64 tmp64 P128 R128 P192 R192 R256 _ (A + R) E hr (by omega) he3 (by omega) hnz
+      (fun r' e3' hL hG hcode => ?_)
+    try simp only []
+    have hcode' : (val128 r' = (lsbFixSame (decide (A % 2 = 1)) (A + R) ⟨ML, MG, L, G⟩).1 ∧ e3'.toInt = E) ∨
+        ((lsbFixSame (decide (A % 2 = 1)) (A + R) ⟨ML, MG, L, G⟩).1 = P34 ∧ val128 r' = P33 ∧ e3'.toInt = E + 1) := by
+      rcases hcode with ⟨a, b, -⟩ | h
+      · exact Or.inl ⟨a, b⟩
+      · exact Or.inr h
+    obtain ⟨hmo, -⟩ := exit_same34 ctx hA34 C4 R ⟨ML, MG, L, G⟩ h1 (decide (A % 2 = 1)) hl (by omega) (val128 r') e3'.toInt hcode'
+    have hflags : (⟨(lsbFixSame (decide (A % 2 = 1)) (A + R) ⟨ML, MG, L, G⟩).2.midLtEven,
+        (lsbFixSame (decide (A % 2 = 1)) (A + R) ⟨ML, MG, L, G⟩).2.midGtEven, L, G⟩ : Ind) =
+        (lsbFixSame (decide (A % 2 = 1)) (A + R) ⟨ML, MG, L, G⟩).2 := ind_eta _ L G hL hG
+    rw [← hflags] at hmo
+    have hcb : 0 < val128 r' ∧ val128 r' ≤ P34 ∧ e3'.toInt ≤ E + 1 ∧ E ≤ e3'.toInt := by
+      have hdis := (lsbFixSame_NE (A := A) h1 hT0 (decide (A % 2 = 1)) hl).2
+      rcases hcode' with ⟨a, b⟩ | ⟨a, b, c⟩
+      · rw [a, b]; rcases hdis with h | ⟨h, -⟩ | ⟨h, h2⟩ <;> omega
+      · rw [b, c]; omega
+    exact uflowRest_spec p1 p2 p3 p4 rm pf r' zs e3' scale ind x0 _ _ L G ML0 MG0 L0 G0 incr (decide (A % 2 = 1)) R64 tmp64 P128 R128
+      P192 R192 R256 s (A * T + C4) m (val128 r') e3'.toInt rfl rfl hzs hV hmx (by omega) (by omega) (by omega) hmo
+
+
+open Dec.RH (Ind)
+open Dec.Rs Dec.Gen.Code
+open Dec.C03GenCompare (val128 val256)
+open Dec.C02GenCorrection (modeOf)
+
+theorem diffContK_eq (p1 p2 p3 p4 : Bool) (pf : UInt32) (res : U128) (zs : UInt64) (e3 scale ind x0 : Int32)
+    (ML MG L G ML0 MG0 L0 G0 incr lsb tiny : Bool) (R64 tmp64 : UInt64) (P128 R128 : U128) (P192 R192 : U192) (R256 : U256) :
+    diffContK p1 p2 p3 p4 pf res zs e3 scale ind x0 ML MG L G ML0 MG0 L0 G0 incr lsb tiny R64 tmp64 P128 R128 P192 R192 R256 =
+      .ok (ForInStep.yield (none, (p1, p2, p3, p4, pf, res, zs, e3 + scale, scale + 1, ind, x0 - 1, false, false, false, false,
+        ML0, MG0, L0, G0, false, lsb, tiny, R64, tmp64, P128, R128, P192, R192, R256))) := rfl
+
+/-- the test "one more turn" -/
+theorem repeat_test (r : U128) (e3 x0 : Int32) (L MG : Bool) (c1 : Nat) (E : Int) (X : Nat) (hr : val128 r = c1)
+    (he3 : e3.toInt = E) (hx : x0.toInt = X) :
+    (((decide (e3 > c_EXP_MIN_UNBIASED)) && (((((decide (r.w1 < (0x314dc6448d93 : UInt64))) || (((r.w1 == (0x314dc6448d93 : UInt64)) && (decide (r.w0 < (0x38c15b0a00000000 : UInt64))))))) || (((((L || MG)) && (r.w1 == (0x314dc6448d93 : UInt64))) && (r.w0 == (0x38c15b0a00000000 : UInt64))))))) && (decide (x0 ≥ (1 : Int32)))) =
+      decide (eMin < E ∧ (c1 < P33 ∨ ((L || MG) = true ∧ c1 = P33)) ∧ 1 ≤ X) := by
+  rw [lt_p33, Bool.and_assoc (L || MG), eq_p33, hr]
+  have h1 : decide (e3 > c_EXP_MIN_UNBIASED) = decide (eMin < E) := by
+    rw [Dec.C02GenCorrection.i32_gt, he3, i32_emin]; rfl
+  have h2 : decide (x0 ≥ (1 : Int32)) = decide (1 ≤ X) := by
+    rw [decide_eq_decide, ge_iff_le, Int32.le_iff_toInt_le, hx]; show (1 : Int) ≤ X ↔ _; omega
+  rw [h1, h2, Bool.eq_iff_iff]
+  simp only [Bool.and_eq_true, Bool.or_eq_true, decide_eq_true_eq]
+  tauto
+
+
+theorem diffFixK_rule (Q : Except String StepT → Prop) (p1 p2 p3 p4 : Bool) (rnd_mode : RoundingMode) (pfpsf : UInt32) (res : U128)
+    (z_sign : UInt64) (e3 scale ind x0 : Int32) (ML MG L G ML0 MG0 L0 G0 incr_exp lsb is_tiny : Bool) (R64 tmp64 : UInt64)
+    (P128 R128 : U128) (P192 R192 : U192) (R256 : U256)
+    (k : Bool → Bool → Bool → Bool → U128 → UInt64 → Int32 → Bool → Bool → Bool → Bool → Except String StepT)
+    (c1 : Nat) (E : Int) (hres : val128 res = c1) (hc1 : c1 ≤ P34) (he3 : e3.toInt = E) (hE : -2^30 < E ∧ E < 2^30)
+    (hcan : Canon ⟨ML, MG, L, G⟩) (hnz : 1 ≤ (lsbFixDiff lsb c1 ⟨ML, MG, L, G⟩).1)
+    (hk : ∀ (r : U128) (e3' : Int32),
+      ((val128 r = (lsbFixDiff lsb c1 ⟨ML, MG, L, G⟩).1 ∧ e3'.toInt = E) ∨
+       ((lsbFixDiff lsb c1 ⟨ML, MG, L, G⟩).1 = P34 ∧ val128 r = P33 ∧ e3'.toInt = E + 1)) →
+      Q (k p1 p2 p3 p4 r z_sign e3' (lsbFixDiff lsb c1 ⟨ML, MG, L, G⟩).2.midLtEven (lsbFixDiff lsb c1 ⟨ML, MG, L, G⟩).2.midGtEven
+          (lsbFixDiff lsb c1 ⟨ML, MG, L, G⟩).2.inexLtMid (lsbFixDiff lsb c1 ⟨ML, MG, L, G⟩).2.inexGtMid)) :
+    Q (diffFixK p1 p2 p3 p4 rnd_mode pfpsf res z_sign e3 scale ind x0 ML MG L G ML0 MG0 L0 G0 incr_exp lsb is_tiny R64 tmp64
+          P128 R128 P192 R192 R256 k) := by
+  obtain ⟨r, e3', hr, c⟩ := diffFixK_spec p1 p2 p3 p4 rnd_mode pfpsf res z_sign e3 scale ind x0 ML MG L G ML0 MG0 L0 G0
+    incr_exp lsb is_tiny R64 tmp64 P128 R128 P192 R192 R256 k c1 E hres hc1 he3 hE hcan hnz
+  rw [hr]; exact hk r e3' c
+
+set_option maxRecDepth 20000 in
+set_option maxHeartbeats 1000000 in
+/-- **opposite signs: from the difference to the result, or to the next turn** -/
+theorem sumRest_diff (p1 p2 p3 p4 : Bool) (rm : RoundingMode) (pf : UInt32) (res : U128) (zs ps : UInt64)
+    (e3 scale ind x0 : Int32) (ML MG L G ML0 MG0 L0 G0 incr lsb : Bool) (R64 tmp64 : UInt64)
+    (P128 R128 : U128) (P192 R192 : U192) (R256 : U256)
+    (s : Bool) (A T X : Nat) (E m : Int) (C4 R : Nat)
+    (hdiff : (zs == ps) = false) (ctx : Ctx A T X E m) (hres : val128 res = A) (hR : val128 R128 = R)
+    (h1 : NE C4 T R ⟨ML, MG, L, G⟩) (hdom : 10 * C4 < A * T) (hV34 : A * T - C4 < P34 * T) (hk : E < eMin → A < P34)
+    (hA35 : A < 10 * P34) (he3 : e3.toInt = E) (hx0 : x0.toInt = X)
+    (hzs : zs.toNat = (if s = true then 1 else 0) * 2^63) (hmx : m ≤ eMax) (hElo : -6300 ≤ E) :
+    (¬ (eMin < E ∧ (A - R < P33 ∨ ((L || MG) = true ∧ A - R = P33)) ∧ 1 ≤ X) →
+      Done (sumRestLit p1 p2 p3 p4 rm pf res zs ps e3 scale ind x0 ML MG L G ML0 MG0 L0 G0 incr lsb false R64 tmp64 P128 R128 P192 R192 R256)
+        (specW rm s (A * T - C4) m) (specF rm s (A * T - C4) m pf)) ∧
+    ((eMin < E ∧ (A - R < P33 ∨ ((L || MG) = true ∧ A - R = P33)) ∧ 1 ≤ X) →
+      ∃ (r : U128) (lsb' : Bool) (t : UInt64),
+        sumRestLit p1 p2 p3 p4 rm pf res zs ps e3 scale ind x0 ML MG L G ML0 MG0 L0 G0 incr lsb false R64 tmp64 P128 R128 P192 R192 R256 =
+          .ok (ForInStep.yield (none, (p1, p2, p3, p4, pf, r, zs, e3 + scale, scale + 1, ind, x0 - 1, false, false, false, false,
+            ML0, MG0, L0, G0, false, lsb', false, R64, t, P128, R128, P192, R192, R256)))) := by
+  have e34 : P34 = 10000000000000000000000000000000000 := rfl
+  have e33 : P33 = 1000000000000000000000000000000000 := rfl
+  have hT0 : 0 < T := by rw [ctx.hT]; exact Nat.pow_pos (by decide)
+  have hA0 := ctx.hA0
+  have hEhi := ctx.hE
+  have hRA := R_le_A h1 hT0 hA0 hdom
+  have hTA : T ≤ A * T := Nat.le_mul_of_pos_left T hA0
+  have hV : 0 < A * T - C4 := by omega
+  have hc1le : A - R ≤ P34 := by
+    -- the difference is within half a unit of V/T < P34
+    have hp := sum_diff_pos h1.toPos hRA (by omega)
+    have := hp.near.2
+    by_contra hc
+    have : (P34 + 1) * T ≤ (A - R) * T := Nat.mul_le_mul_right T (by omega)
+    rw [Nat.add_mul, Nat.one_mul] at this
+    omega
+  rw [sumRestLit_eq, if_neg (by rw [hdiff]; decide)]
+  constructor
+  · intro hnr
+    refine diffSubK_rule (fun x => Done x _ _) res lsb tmp64 R128 _ (by rw [hres, hR]; exact hRA) (fun r t hr => ?_)
+    rw [hres, hR] at hr
+    try simp only []
+    rw [repeat_test r e3 x0 L MG (A - R) E X hr he3 hx0, hres, if_neg (by simpa using hnr)]
+    have hl := dec_odd A
+    have hnz := lsbFixDiff_pos h1 hT0 hA0 hdom (decide (A % 2 = 1)) hl
+    refine diffFixK_rule (fun x => Done x _ _) p1 p2 p3 p4 rm pf r zs e3 scale ind x0 ML MG L G ML0 MG0 L0 G0 incr
+      (decide (A % 2 = 1)) false R64 t P128 R128 P192 R192 R256 _ (A - R) E hr hc1le he3 (by omega) (h1.canon hT0) hnz
+      (fun r' e3' hcode => ?_)
+    try simp only []
+    obtain ⟨hmo, -⟩ := exit_diff ctx C4 R ⟨ML, MG, L, G⟩ h1 hdom hV34 hk (decide (A % 2 = 1)) hl hnr (val128 r') e3'.toInt hcode
+    generalize hD : lsbFixDiff (decide (A % 2 = 1)) (A - R) ⟨ML, MG, L, G⟩ = D at *
+    have hcb : 0 < val128 r' ∧ val128 r' ≤ P34 ∧ e3'.toInt ≤ E + 1 ∧ E ≤ e3'.toInt := by
+      have hNE := (lsbFixDiff_NE h1 hT0 hRA (by omega) (decide (A % 2 = 1)) hl).1
+      rw [hD] at hNE
+      have hle := cf_le_P34 hNE hT0 (Nat.le_of_lt hV34)
+      rcases hcode with ⟨a, b⟩ | ⟨a, b, c⟩
+      · rw [a, b]; omega
+      · rw [b, c]; omega
+    have hmo' : MainOut (A * T - C4) m (val128 r') e3'.toInt ⟨D.2.midLtEven, D.2.midGtEven, D.2.inexLtMid, D.2.inexGtMid⟩ := hmo
+    exact uflowRest_spec p1 p2 p3 p4 rm pf r' zs e3' scale ind x0 _ _ _ _ ML0 MG0 L0 G0 incr (decide (A % 2 = 1)) R64 t P128 R128
+      P192 R192 R256 s (A * T - C4) m (val128 r') e3'.toInt rfl rfl hzs hV hmx (by omega) (by omega) (by omega) hmo'
+  · intro hrep
+    obtain ⟨r, t, hr, hv⟩ := diffSubK_spec res lsb tmp64 R128 (fun res lsb tmp64 =>
+        if (((decide (e3 > c_EXP_MIN_UNBIASED)) && (((((decide (res.w1 < (0x314dc6448d93 : UInt64))) || (((res.w1 == (0x314dc6448d93 : UInt64)) && (decide (res.w0 < (0x38c15b0a00000000 : UInt64))))))) || (((((L || MG)) && (res.w1 == (0x314dc6448d93 : UInt64))) && (res.w0 == (0x38c15b0a00000000 : UInt64))))))) && (decide (x0 ≥ (1 : Int32)))) = true then
+          diffContK p1 p2 p3 p4 pf res zs e3 scale ind x0 ML MG L G ML0 MG0 L0 G0 incr lsb false R64 tmp64 P128 R128 P192 R192 R256
+        else
+          diffFixK p1 p2 p3 p4 rm pf res zs e3 scale ind x0 ML MG L G ML0 MG0 L0 G0 incr lsb false R64 tmp64 P128 R128 P192 R192 R256 (fun ptr_is_midpoint_lt_even ptr_is_midpoint_gt_even ptr_is_inexact_lt_midpoint ptr_is_inexact_gt_midpoint res z_sign e3 is_midpoint_lt_even is_midpoint_gt_even is_inexact_lt_midpoint is_inexact_gt_midpoint =>
+          uflowRestLit ptr_is_midpoint_lt_even ptr_is_midpoint_gt_even ptr_is_inexact_lt_midpoint ptr_is_inexact_gt_midpoint rm pf res z_sign e3 scale ind x0 is_midpoint_lt_even is_midpoint_gt_even is_inexact_lt_midpoint is_inexact_gt_midpoint ML0 MG0 L0 G0 incr lsb false R64 tmp64 P128 R128 P192 R192 R256))
+      (by rw [hres, hR]; exact hRA)
+    rw [hres, hR] at hv
+    refine ⟨r, decide (val128 res % 2 = 1), t, ?_⟩
+    rw [hr]
+    try simp only []
+    rw [repeat_test r e3 x0 L MG (A - R) E X hv he3 hx0, if_pos (by simpa using hrep), diffContK_eq]
+
+
+open Dec.RH (Ind)
+open Dec.Rs Dec.Gen.Code
+open Dec.C03GenCompare (val128 val256)
+open Dec.C02GenCorrection (modeOf)
+
+/-! ## 13. One turn of the loop -/
+
+theorem scaleC3K_rule {α : Type} (Q : Except String α → Prop) (res C3 : U128) (q3 scale : Int32) (k : U128 → Except String α)
+    (c Qn S : Nat) (hC : val128 C3 = c) (hq : q3.toInt = Qn) (hsc : scale.toInt = S) (hQ : Qn = ndigits c) (hc0 : 0 < c)
+    (hfit : Qn + S ≤ 35) (hS : S ≤ 34) (hk : ∀ r : U128, val128 r = c * 10 ^ S → Q (k r)) :
+    Q (scaleC3K res C3 q3 scale k) := by
+  obtain ⟨r, hr, hv⟩ := scaleC3K_spec res C3 q3 scale k c Qn S hC hq hsc hQ hc0 hfit hS
+  rw [hr]; exact hk r hv
+
+theorem roundC4K_rule {α : Type} (Q : Except String α → Prop) (C4 : U256) (q4 x0 : Int32) (incr : Bool) (R64 : UInt64)
+    (P128 R128 : U128) (P192 R192 : U192) (R256 : U256)
+    (k : Bool → Bool → Bool → Bool → Bool → UInt64 → U128 → U128 → U192 → U192 → U256 → Except String α)
+    (c4 Qn X : Nat) (hC : val256 C4 = c4) (hq' : 1 ≤ X → q4.toInt = Qn) (hx : x0.toInt = X) (hc4' : 1 ≤ X → c4 < 10 ^ Qn)
+    (hXQ : X = 0 ∨ X + 1 ≤ Qn) (hQ : Qn ≤ 76) (h128 : X = 0 → c4 < 2 ^ 128) (hfit : Qn - X ≤ 35)
+    (h58 : 58 ≤ Qn → 1 ≤ X → 20 ≤ X)
+    (hk : ∀ (ML MG L G incr' : Bool) (R64' : UInt64) (P128' R128' : U128) (P192' R192' : U192) (R256' : U256),
+      NE c4 (10 ^ X) (val128 R128') ⟨ML, MG, L, G⟩ → Q (k ML MG L G incr' R64' P128' R128' P192' R192' R256')) :
+    Q (roundC4K C4 q4 x0 false false false false incr R64 P128 R128 P192 R192 R256 k) := by
+  obtain ⟨ML, MG, L, G, incr', R64', P128', R128', P192', R192', R256', hr, hne⟩ :=
+    roundC4K_spec C4 q4 x0 incr R64 P128 R128 P192 R192 R256 k c4 Qn X hC hq' hx hc4' hXQ hQ h128 hfit h58
+  rw [hr]; exact hk ML MG L G incr' R64' P128' R128' P192' R192' R256' hne
+
+/-- **what one turn needs**: `c3` with `S` zeros to append is `A`, the unit `10^E` with `E = E0 − S`; `X` digits of `c4` go -/
+structure TurnPre (c3 c4 S X : Nat) (E0 : Int) (same : Bool) (m : Int) (V : Nat) : Prop where
+  hc3 : 0 < c3
+  hS : ndigits c3 + S ≤ 35
+  hS34 : S ≤ 34
+  ctx : Ctx (c3 * 10 ^ S) (10 ^ X) X (E0 - S) m
+  hc4 : 0 < c4
+  hQ4 : ndigits c4 ≤ 76
+  hX : X = 0 ∨ X + 1 ≤ ndigits c4
+  hfit : ndigits c4 - X ≤ 35
+  hR34 : same = true → ndigits c4 - X ≤ 34
+  h58 : 58 ≤ ndigits c4 → 1 ≤ X → 20 ≤ X
+  h128 : X = 0 → c4 < 2 ^ 128
+  hElo : -6300 ≤ E0 - S
+  hV : V = if same = true then c3 * 10 ^ S * 10 ^ X + c4 else c3 * 10 ^ S * 10 ^ X - c4
+  hsame : same = true → c3 * 10 ^ S < P34
+  hdom : same = false → 10 * c4 < c3 * 10 ^ S * 10 ^ X
+  hV34 : same = false → c3 * 10 ^ S * 10 ^ X - c4 < P34 * 10 ^ X
+  hk : same = false → E0 - S < eMin → c3 * 10 ^ S < P34
+  hA35 : c3 * 10 ^ S < 10 * P34
+
+/-- the condition for one more turn -/
+def RepCond (A X : Nat) (E : Int) (R : Nat) (fl : Ind) : Prop :=
+  eMin < E ∧ (A - R < P33 ∨ ((fl.inexLtMid || fl.midGtEven) = true ∧ A - R = P33)) ∧ 1 ≤ X
+
+
+theorem rne_le34 (c4 X : Nat) (hX : X = 0 ∨ X + 1 ≤ ndigits c4) (hfit : ndigits c4 - X ≤ 34) (R : Nat) (fl : Ind)
+    (h : NE c4 (10 ^ X) R fl) : R ≤ P34 := by
+  have e34 : P34 = 10 ^ 34 := by decide
+  have hp : 0 < 10 ^ X := Nat.pow_pos (by decide)
+  have hc : c4 < 10 ^ ndigits c4 := lt_pow_ndigits c4
+  have hle : 10 ^ ndigits c4 ≤ 10 ^ 34 * 10 ^ X := by
+    rw [← Nat.pow_add]; exact Nat.pow_le_pow_right (by decide) (by omega)
+  have hn := h.near.2
+  by_contra hcon
+  have : (10 ^ 34 + 1) * 10 ^ X ≤ R * 10 ^ X := Nat.mul_le_mul_right _ (by omega)
+  rw [Nat.add_mul, Nat.one_mul] at this
+  omega
+
+set_option maxRecDepth 20000 in
+set_option maxHeartbeats 1000000 in
+/-- **one turn of the loop**: it ends the routine with the specified result, or (opposite signs, leading digit cancelled) asks
+for one more turn with one digit more of `C3·10^scale` and one digit less removed -/
+theorem turn_spec (p1 p2 p3 p4 : Bool) (rm : RoundingMode) (pf : UInt32) (res : U128) (zs ps : UInt64) (C3 : U128) (C4 : U256)
+    (q3 q4 e3 scale ind x0 : Int32) (ML0 MG0 L0 G0 incr lsb : Bool) (R64 tmp64 : UInt64)
+    (P128 R128 : U128) (P192 R192 : U192) (R256 : U256)
+    (sz same : Bool) (c3 c4 S X : Nat) (E0 m : Int) (V : Nat)
+    (hC3 : val128 C3 = c3) (hq3 : q3.toInt = ndigits c3) (hsc : scale.toInt = S) (hx0 : x0.toInt = X) (he3 : e3.toInt = E0)
+    (hC4 : val256 C4 = c4) (hq4 : 1 ≤ X → q4.toInt = ndigits c4) (hsg : (zs == ps) = same)
+    (hzs : zs.toNat = (if sz = true then 1 else 0) * 2^63) (hmx : m ≤ eMax) (hE0 : -6300 ≤ E0 ∧ E0 ≤ 6300)
+    (tp : TurnPre c3 c4 S X E0 same m V) :
+    Done (bodyLit p1 p2 p3 p4 rm pf res zs ps C3 C4 q3 q4 e3 scale ind x0 false false false false ML0 MG0 L0 G0 incr lsb false R64 tmp64
+        P128 R128 P192 R192 R256) (specW rm sz V m) (specF rm sz V m pf) ∨
+    (same = false ∧ ∃ (R : Nat) (fl1 : Ind), NE c4 (10 ^ X) R fl1 ∧ RepCond (c3 * 10 ^ S) X (E0 - S) R fl1 ∧
+      ∃ (r : U128) (lsb' : Bool) (t R64' : UInt64) (P128' R128' : U128) (P192' R192' : U192) (R256' : U256),
+        bodyLit p1 p2 p3 p4 rm pf res zs ps C3 C4 q3 q4 e3 scale ind x0 false false false false ML0 MG0 L0 G0 incr lsb false R64 tmp64
+          P128 R128 P192 R192 R256 =
+        .ok (ForInStep.yield (none, (p1, p2, p3, p4, pf, r, zs, (e3 - scale) + scale, scale + 1, ind, x0 - 1, false, false, false, false,
+          ML0, MG0, L0, G0, false, lsb', false, R64', t, P128', R128', P192', R192', R256')))) := by
+  have e34 : P34 = 10000000000000000000000000000000000 := rfl
+  have hP128 : P34 < 2 ^ 128 := by decide
+  have hS34 := tp.hS34
+  have heS : (e3 - scale).toInt = E0 - S := i32_sub' e3 scale E0 S he3 hsc (by omega) (by omega)
+  -- the two stages before the sum, with what they hand on
+  obtain ⟨rA, hrA, hvA⟩ := scaleC3K_spec res C3 q3 scale (fun res =>
+      let e3 := (e3 - scale)
+      roundC4K C4 q4 x0 false false false false incr R64 P128 R128 P192 R192 R256 (fun is_midpoint_lt_even is_midpoint_gt_even is_inexact_lt_midpoint is_inexact_gt_midpoint incr_exp R64 P128 R128 P192 R192 R256 =>
+      sumRestLit p1 p2 p3 p4 rm pf res zs ps e3 scale ind x0 is_midpoint_lt_even is_midpoint_gt_even is_inexact_lt_midpoint is_inexact_gt_midpoint ML0 MG0 L0 G0 incr_exp lsb false R64 tmp64 P128 R128 P192 R192 R256))
+    c3 (ndigits c3) S hC3 hq3 hsc rfl tp.hc3 tp.hS tp.hS34
+  rw [bodyLit_eq, hrA]
+  try simp only []
+  obtain ⟨ML, MG, L, G, incr', R64', P128', R128', P192', R192', R256', hrB, hne⟩ := roundC4K_spec C4 q4 x0 incr R64 P128 R128 P192 R192 R256
+    (fun is_midpoint_lt_even is_midpoint_gt_even is_inexact_lt_midpoint is_inexact_gt_midpoint incr_exp R64 P128 R128 P192 R192 R256 =>
+      sumRestLit p1 p2 p3 p4 rm pf rA zs ps (e3 - scale) scale ind x0 is_midpoint_lt_even is_midpoint_gt_even is_inexact_lt_midpoint is_inexact_gt_midpoint ML0 MG0 L0 G0 incr_exp lsb false R64 tmp64 P128 R128 P192 R192 R256)
+    c4 (ndigits c4) X hC4 hq4 hx0 (fun _ => lt_pow_ndigits c4) tp.hX tp.hQ4 tp.h128 tp.hfit tp.h58
+  rw [hrB]
+  try simp only []
+  have hV := tp.hV
+  cases same
+  · -- opposite signs
+    simp only [Bool.false_eq_true, if_false] at hV
+    obtain ⟨hD, hY⟩ := sumRest_diff p1 p2 p3 p4 rm pf rA zs ps (e3 - scale) scale ind x0 ML MG L G ML0 MG0 L0 G0 incr' lsb R64' tmp64
+      P128' R128' P192' R192' R256' sz (c3 * 10 ^ S) (10 ^ X) X (E0 - S) m c4 (val128 R128') hsg tp.ctx hvA rfl hne (tp.hdom rfl)
+      (tp.hV34 rfl) (tp.hk rfl) tp.hA35 heS hx0 hzs hmx tp.hElo
+    by_cases hrep : eMin < E0 - S ∧ (c3 * 10 ^ S - val128 R128' < P33 ∨ ((L || MG) = true ∧ c3 * 10 ^ S - val128 R128' = P33)) ∧ 1 ≤ X
+    · right
+      obtain ⟨r, lsb', t, hy⟩ := hY hrep
+      exact ⟨rfl, val128 R128', ⟨ML, MG, L, G⟩, hne, hrep, r, lsb', t, R64', P128', R128', P192', R192', R256', hy⟩
+    · left
+      rw [hV]; exact hD hrep
+  · -- same signs
+    simp only [if_true] at hV
+    left
+    rw [hV]
+    exact sumRest_same p1 p2 p3 p4 rm pf rA zs ps (e3 - scale) scale ind x0 ML MG L G ML0 MG0 L0 G0 incr' lsb R64' tmp64
+      P128' R128' P192' R192' R256' sz (c3 * 10 ^ S) (10 ^ X) X (E0 - S) m c4 (val128 R128') hsg tp.ctx (tp.hsame rfl) hvA rfl
+      (rne_le34 c4 X tp.hX (tp.hR34 rfl) _ _ hne) hne heS hzs hmx tp.hElo
+
+
+open Dec.RH (Ind)
+open Dec.Rs Dec.Gen.Code
+open Dec.C03GenCompare (val128 val256)
+open Dec.C02GenCorrection (modeOf)
+
+/-! ## 14. The loop: at most two turns -/
+
+theorem forIn_done1 {σ : Type} (f : Nat → σ → Except String (ForInStep σ)) (s s' : σ) (n : Nat)
+    (h : f 0 s = .ok (ForInStep.done s')) : forIn [0:n + 1] s f = .ok s' := by
+  rw [Std.Legacy.Range.forIn_eq_forIn_range']
+  have : Std.Legacy.Range.size [0:n + 1] = n + 1 := by simp [Std.Legacy.Range.size]
+  rw [this, List.range'_succ, List.forIn_cons, h]
+  rfl
+
+theorem forIn_done2 {σ : Type} (f : Nat → σ → Except String (ForInStep σ)) (s s1 s' : σ) (n : Nat)
+    (h1 : f 0 s = .ok (ForInStep.yield s1)) (h2 : f 1 s1 = .ok (ForInStep.done s')) : forIn [0:n + 2] s f = .ok s' := by
+  rw [Std.Legacy.Range.forIn_eq_forIn_range']
+  have : Std.Legacy.Range.size [0:n + 2] = n + 1 + 1 := by simp [Std.Legacy.Range.size]
+  rw [this, List.range'_succ, List.forIn_cons, h1]
+  simp only [bind, Except.bind]
+  rw [List.range'_succ, List.forIn_cons, h2]
+  rfl
+
+/-- the first turn's preconditions, from the loop's -/
+theorem TurnPre.first {c3 c4 S X : Nat} {E0 : Int} {same : Bool} {m : Int} {V : Nat} (h : LoopPre c3 c4 S X E0 same m V) :
+    TurnPre c3 c4 S X E0 same m V := by
+  have e34 : P34 = 10 ^ 34 := by decide
+  have e33 : P33 = 10 ^ 33 := by decide
+  have hMin : eMin = -6176 := rfl
+  obtain ⟨hc3, hS, hc4, hQ4, hX, hfit, h58, h128, hE0, hm, hx33, hV, hdom⟩ := h
+  have hQ1 : 1 ≤ ndigits c3 := ndigits_pos hc3
+  have hcQ : c3 < 10 ^ ndigits c3 := lt_pow_ndigits c3
+  have hpS : 0 < 10 ^ S := Nat.pow_pos (by decide)
+  have hpX : 0 < 10 ^ X := Nat.pow_pos (by decide)
+  have hA34 : c3 * 10 ^ S < P34 := by
+    calc c3 * 10 ^ S < 10 ^ ndigits c3 * 10 ^ S := Nat.mul_lt_mul_of_pos_right hcQ hpS
+      _ = 10 ^ (ndigits c3 + S) := (Nat.pow_add _ _ _).symm
+      _ ≤ 10 ^ 34 := Nat.pow_le_pow_right (by decide) hS
+      _ = P34 := e34.symm
+  have hA0 : 0 < c3 * 10 ^ S := Nat.mul_pos hc3 hpS
+  have hAS : 10 ^ S ≤ c3 * 10 ^ S := Nat.le_mul_of_pos_left _ hc3
+  refine ⟨hc3, by omega, by omega, ⟨rfl, by omega, hA0, ?_, ?_, by omega⟩, hc4, by omega, hX, by omega, fun _ => hfit,
+    fun a b => by have := h58 a b; omega, fun h => lt_trans (h128 h) (by decide), by omega, hV, fun _ => hA34, hdom, ?_, fun _ _ => hA34,
+    by omega⟩
+  · rcases hx33 with h | h
+    · exact Or.inl h
+    · right
+      have hlo := (ndigits_spec hc3).1
+      calc P33 = 10 ^ (ndigits c3 - 1) * 10 ^ S := by rw [e33, ← Nat.pow_add]; congr 1; omega
+        _ ≤ c3 * 10 ^ S := Nat.mul_le_mul_right _ hlo
+  · intro hlt
+    calc 10 ^ (eMin - (E0 - ↑S)).toNat ≤ 10 ^ S := Nat.pow_le_pow_right (by decide) (by omega)
+      _ ≤ c3 * 10 ^ S := hAS
+  · intro hs
+    have : c3 * 10 ^ S * 10 ^ X < P34 * 10 ^ X := Nat.mul_lt_mul_of_pos_right hA34 hpX
+    omega
+
+
+/-- the second turn's preconditions, from the first turn's and the condition that asked for it -/
+theorem TurnPre.second {c3 c4 S X : Nat} {E0 : Int} {m : Int} {V : Nat} (h : LoopPre c3 c4 S X E0 false m V)
+    (R : Nat) (fl1 : Ind) (h1 : NE c4 (10 ^ X) R fl1) (hrep : RepCond (c3 * 10 ^ S) X (E0 - S) R fl1) :
+    TurnPre c3 c4 (S + 1) (X - 1) E0 false m V ∧
+    (∀ (R' : Nat) (fl' : Ind), NE c4 (10 ^ (X - 1)) R' fl' → ¬ RepCond (c3 * 10 ^ (S + 1)) (X - 1) (E0 - (S + 1 : Nat)) R' fl') := by
+  have e34 : P34 = 10 ^ 34 := by decide
+  have hMin : eMin = -6176 := rfl
+  have tp := TurnPre.first h
+  obtain ⟨hc3, hS, hc4, hQ4, hX, hfit, h58, h128, hE0, hm, hx33, hV, hdom⟩ := h
+  have hQ1 : 1 ≤ ndigits c3 := ndigits_pos hc3
+  have hX1 : 1 ≤ X := hrep.2.2
+  obtain ⟨T', hT, ctx', eAT, hV34, hnorep⟩ := repeat_step tp.ctx c4 R fl1 h1 (hdom rfl) hrep
+  have hT' : T' = 10 ^ (X - 1) := ctx'.hT
+  have eA : c3 * 10 ^ (S + 1) = c3 * 10 ^ S * 10 := by rw [Nat.pow_succ, Nat.mul_assoc]
+  have hcast : ((S + 1 : Nat) : Int) = (S : Int) + 1 := by push_cast; rfl
+  have hE' : E0 - ((S + 1 : Nat) : Int) = E0 - S - 1 := by omega
+  have hcQ4 : c4 < 10 ^ ndigits c4 := lt_pow_ndigits c4
+  refine ⟨⟨hc3, by omega, by omega, ?_, hc4, by omega, by omega, by omega, fun h => absurd h (by decide),
+    fun a b => by have := h58 a (by omega); omega, ?_, by omega, ?_, fun h => absurd h (by decide), ?_, ?_, ?_, ?_⟩, ?_⟩
+  · rw [eA, hE', ← hT']; exact ctx'
+  · intro _
+    calc c4 < 10 ^ ndigits c4 := hcQ4
+      _ ≤ 10 ^ 35 := Nat.pow_le_pow_right (by decide) (by omega)
+      _ < 2 ^ 128 := by decide
+  · rw [hV, eA, ← hT', eAT, ← tp.ctx.hT]
+  · intro _; rw [eA, ← hT', eAT, ← tp.ctx.hT]; exact hdom rfl
+  · intro _; rw [eA, ← hT', eAT, ← tp.ctx.hT]; rw [← tp.ctx.hT] at hV34; exact hV34
+  · intro _ hlt
+    exfalso
+    have := hrep.1
+    omega
+  · rw [eA]
+    have := tp.hsame
+    have hA : c3 * 10 ^ S < P34 := by
+      have hcQ : c3 < 10 ^ ndigits c3 := lt_pow_ndigits c3
+      calc c3 * 10 ^ S < 10 ^ ndigits c3 * 10 ^ S := Nat.mul_lt_mul_of_pos_right hcQ (Nat.pow_pos (by decide))
+        _ = 10 ^ (ndigits c3 + S) := (Nat.pow_add _ _ _).symm
+        _ ≤ 10 ^ 34 := Nat.pow_le_pow_right (by decide) hS
+        _ = P34 := e34.symm
+    omega
+  · intro R' fl' h'
+    have := hnorep R' fl' (by rw [hT']; exact h')
+    unfold RepCond
+    rw [eA, hE']
+    exact this
+
+
+open Dec.RH (Ind)
+open Dec.Rs Dec.Gen.Code
+open Dec.C03GenCompare (val128 val256)
+open Dec.C02GenCorrection (modeOf)
+
+set_option maxRecDepth 20000 in
+set_option maxHeartbeats 2000000 in
+/-- **the `'case2_repeat` loop returns the specified result** (in one or two turns; the fuel is never used up) -/
+theorem loop_spec (p1 p2 p3 p4 : Bool) (rm : RoundingMode) (pf : UInt32) (res : U128) (zs ps : UInt64) (C3 : U128) (C4 : U256)
+    (q3 q4 e3 scale ind x0 : Int32) (ML0 MG0 L0 G0 incr lsb : Bool) (R64 tmp64 : UInt64)
+    (P128 R128 : U128) (P192 R192 : U192) (R256 : U256)
+    (sz same : Bool) (c3 c4 S X : Nat) (E0 m : Int) (V : Nat)
+    (hC3 : val128 C3 = c3) (hq3 : q3.toInt = ndigits c3) (hsc : scale.toInt = S) (hx0 : x0.toInt = X) (he3 : e3.toInt = E0)
+    (hC4 : val256 C4 = c4) (hq4 : 1 ≤ X → q4.toInt = ndigits c4) (hsg : (zs == ps) = same)
+    (hzs : zs.toNat = (if sz = true then 1 else 0) * 2^63) (hmx : m ≤ eMax)
+    (lp : LoopPre c3 c4 S X E0 same m V) :
+    ∃ a b c d : Bool,
+      loopLit p1 p2 p3 p4 rm pf res zs ps C3 C4 q3 q4 e3 scale ind x0 false false false false ML0 MG0 L0 G0 incr lsb false R64 tmp64
+        P128 R128 P192 R192 R256 = .ok (specW rm sz V m, a, b, c, d, specF rm sz V m pf) := by
+  have hE0 := lp.hE0
+  have hS34 : S ≤ 33 := by have := lp.hS; have := ndigits_pos lp.hc3; omega
+  rw [loopLit_eq]
+  unfold loopK
+  simp only [bind, Except.bind, pure, Except.pure]
+  have t1 := turn_spec p1 p2 p3 p4 rm pf res zs ps C3 C4 q3 q4 e3 scale ind x0 ML0 MG0 L0 G0 incr lsb R64 tmp64 P128 R128 P192 R192 R256
+    sz same c3 c4 S X E0 m V hC3 hq3 hsc hx0 he3 hC4 hq4 hsg hzs hmx (by omega) (TurnPre.first lp)
+  rcases t1 with ⟨a, b, c, d, st, hd⟩ | ⟨hs, R, fl1, h1, hrep, r, lsb', t, R64', P128', R128', P192', R192', R256', hy⟩
+  · -- one turn
+    have hd' : iterK rm ps C3 C4 q3 q4 (none, p1, p2, p3, p4, pf, res, zs, e3, scale, ind, x0, false, false, false, false, ML0, MG0, L0,
+        G0, incr, lsb, false, R64, tmp64, P128, R128, P192, R192, R256) = _ := hd
+    rw [forIn_done1 (fun _ st => iterK rm ps C3 C4 q3 q4 st) _ _ 4095 hd']
+    exact ⟨a, b, c, d, rfl⟩
+  · -- two turns
+    subst hs
+    obtain ⟨tp2, hnr⟩ := TurnPre.second lp R fl1 h1 hrep
+    have hX1 : 1 ≤ X := hrep.2.2
+    have hX68 : X ≤ 68 := by have := lp.hX; have := lp.hQ4; omega
+    have hsc2 : (scale + 1).toInt = ((S + 1 : Nat) : Int) := by
+      rw [i32_add' scale 1 S 1 hsc rfl (by omega) (by omega)]; push_cast; rfl
+    have hx2 : (x0 - 1).toInt = ((X - 1 : Nat) : Int) := by
+      rw [i32_sub' x0 1 X 1 hx0 rfl (by omega) (by omega)]; omega
+    have he2 : ((e3 - scale) + scale).toInt = E0 := by
+      have a1 := i32_sub' e3 scale E0 S he3 hsc (by omega) (by omega)
+      rw [i32_add' _ scale _ S a1 hsc (by omega) (by omega)]; omega
+    have t2 := turn_spec p1 p2 p3 p4 rm pf r zs ps C3 C4 q3 q4 ((e3 - scale) + scale) (scale + 1) ind (x0 - 1) ML0 MG0 L0 G0 false lsb'
+      R64' t P128' R128' P192' R192' R256' sz false c3 c4 (S + 1) (X - 1) E0 m V hC3 hq3 hsc2 hx2 he2 hC4 (fun h => hq4 (by omega)) hsg hzs hmx
+      (by omega) tp2
+    rcases t2 with ⟨a, b, c, d, st, hd⟩ | ⟨-, R', fl', h', hrep', -⟩
+    · have hy' : iterK rm ps C3 C4 q3 q4 (none, p1, p2, p3, p4, pf, res, zs, e3, scale, ind, x0, false, false, false, false, ML0, MG0, L0,
+          G0, incr, lsb, false, R64, tmp64, P128, R128, P192, R192, R256) = _ := hy
+      have hd' : iterK rm ps C3 C4 q3 q4 (none, p1, p2, p3, p4, pf, r, zs, (e3 - scale) + scale, scale + 1, ind, x0 - 1, false, false,
+          false, false, ML0, MG0, L0, G0, false, lsb', false, R64', t, P128', R128', P192', R192', R256') = _ := hd
+      rw [forIn_done2 (fun _ st => iterK rm ps C3 C4 q3 q4 st) _ _ _ 4094 hy' hd']
+      exact ⟨a, b, c, d, rfl⟩
+    · exact absurd hrep' (hnr R' fl' h')
 
 
 end Dec.C02GenFmaMid
